@@ -1,7 +1,2271 @@
-//! C07 — not built yet (stub).
+//! C07 — validating resolver: Secure implies an unbroken chain to a trust anchor.
+//!
+//! Shape of the check (DESIGN.md section 7 C07):
+//!
+//! * a generated hierarchy root -> `t.` -> `l.t.` (+ sibling `s.t.`) is built with hickory's own
+//!   authoritative code (`InMemoryZoneHandler` + `add_zone_signing_key_mut` + `secure_zone_mut`),
+//!   DS RRsets in the parent computed from the child's DNSKEYs; signing happens at virtual time
+//!   BASE, validation at BASE + 1 h, signatures are valid for 30 days (crate::clock virtual mode,
+//!   `SimTime` is the validator's clock);
+//! * a scripted resolver-like `DnsHandle` (`Upstream`) routes every (qname, qtype) to the zone
+//!   that is authoritative for it (DS goes to the parent), serves it through
+//!   `Catalog::handle_request::<_, SimTime>` and logs the exchange;
+//! * the real `DnssecDnsHandle::with_trust_anchor` validates on top of it, a fresh handle (fresh
+//!   validation cache) per run;
+//! * a *fault* tampers with the upstream response to one query (every time that query is asked):
+//!   - `single_faults` enumerates, per scenario, every (response of the fault-free trace, section,
+//!     record, operator);
+//!   - `double_faults` samples pairs: uniform, attacker-constructive, "forged chain link" (forged
+//!     data + forged DNSKEY/DS/zone-cut probe) and *follow-up* pairs whose second fault hits a
+//!     query that the validator sends only because of the first;
+//!   - `server_ad_servfail` (clause d) puts a small External `ZoneHandler` with
+//!     `can_validate_dnssec()` under a real `Catalog` and judges the AD bit / SERVFAIL mapping.
+//!
+//! Oracle (a validity predicate over the outcome; nothing here calls hickory's validator a
+//! second way). G = records served by the genuine zones, S = status of the queried name from the
+//! reference model in gen/hier.rs (RFC 4035 4.3 / 5.2, RFC 6840 5.2):
+//!   R1  every record returned with proof Secure is in G, TTL not above the genuine TTL
+//!       (RFC 4035 5.3.3)                                                    -- always
+//!   R2  a record of a model-Secure zone is never returned labelled Insecure -- always
+//!       (RFC 4035 4.3 / 5.2: Insecure needs an authenticated proof that no DS exists)
+//!   R3  S = Secure, with faults: the outcome is an error / marked Bogus, or it is the genuine
+//!       outcome: a positive answer whose RRsets are complete genuine RRsets, all Secure; a denial
+//!       of the genuine kind backed by a Secure NSEC/NSEC3. Never a denial of existing data,
+//!       never a denial without proof (RFC 4035 5.4).
+//!   R4  no faults: the outcome has status S and the genuine data (completeness, so that the
+//!       check is not vacuous)
+//!   (d) AD=1 => S = Secure and the genuine answer; a relevant Bogus record and CD=0 => SERVFAIL
+//!       without data; a CD=0 client of a Secure chain sees the genuine answer or an error
+//!       (RFC 4035 3.2.2 / 3.2.3)
+//!
+//! A deviation is named after its root cause where the tampered input shows a known pattern
+//! (`tamper_path`, `K2`), otherwise after the oracle rule that fired.
 
-use crate::core::Check;
+use std::cell::RefCell;
+use std::collections::{BTreeMap, BTreeSet, HashMap};
+use std::net::{Ipv4Addr, Ipv6Addr, SocketAddr};
+use std::pin::Pin;
+use std::str::FromStr;
+use std::sync::{Arc, Mutex, OnceLock};
+use std::time::Duration;
+
+use futures_util::stream::{self, Stream};
+use hickory_net::dnssec::DnssecDnsHandle;
+use hickory_net::xfer::{DnsHandle, FirstAnswer, Protocol};
+use hickory_net::{DnsError, NetError};
+use hickory_proto::dnssec::crypto::Ed25519SigningKey;
+use hickory_proto::dnssec::rdata::{DNSSECRData, DNSKEY, DS, NSEC, NSEC3, RRSIG};
+use hickory_proto::dnssec::{Algorithm, DigestType, DnssecSigner, Nsec3HashAlgorithm, Proof, PublicKeyBuf, SigningKey, TrustAnchors};
+use hickory_proto::op::{DnsRequest, DnsRequestOptions, DnsResponse, Edns, Message, MessageType, Query, ResponseCode};
+use hickory_proto::rr::rdata::{A, AAAA, CNAME, MX, NS, SOA, TXT};
+use hickory_proto::rr::{DNSClass, LowerName, Name, RData, Record, RecordSet, RecordType};
+use hickory_proto::serialize::binary::{BinDecoder, BinEncodable, BinEncoder};
+use hickory_server::dnssec::NxProofKind;
+use hickory_server::server::{Request, RequestHandler, ResponseHandler, ResponseInfo};
+use hickory_server::server::RequestInfo;
+use hickory_server::store::in_memory::InMemoryZoneHandler;
+use hickory_server::zone_handler::{AuthLookup, AxfrPolicy, Catalog, LookupControlFlow, LookupError, LookupOptions, MessageResponse, Nsec3QueryInfo, ZoneHandler, ZoneType};
+use proptest::prelude::*;
+use proptest::strategy::ValueTree;
+use proptest::test_runner::{Config, RngAlgorithm, TestRng, TestRunner};
+use serde::{Deserialize, Serialize};
+use time::OffsetDateTime;
+
+use crate::clock;
+use crate::core::{enumerate, fixed_hash, prop, CaseResult, Check, Env, Fail, Rec, Tier};
+use crate::gen::hier::{self, DsKind, Nx, Scenario, ZoneSpec, Z};
+use crate::sim::{SimRt, SimTime};
+
+/// virtual unix time at which all zones are signed
+const BASE: u64 = 1_700_000_000;
+/// validation happens this many seconds after signing
+const QUERY_AFTER: u64 = 3_600;
+const SIG_VALID: Duration = Duration::from_secs(30 * 86_400);
+
+// ---------------------------------------------------------------------------------------------
+// key material (Ed25519 from seeds: reproducible)
+
+#[derive(Clone)]
+struct KeyMat {
+    seed: [u8; 32],
+    dnskey: DNSKEY,
+    pk: PublicKeyBuf,
+    tag: u16,
+}
+
+fn seed_bytes(label: &str, a: u64, b: u64) -> [u8; 32] {
+    let mut out = [0u8; 32];
+    for i in 0..4u64 {
+        let h = fixed_hash(&[label.as_bytes(), &a.to_le_bytes(), &b.to_le_bytes(), &i.to_le_bytes()]);
+        out[(i as usize) * 8..(i as usize) * 8 + 8].copy_from_slice(&h.to_le_bytes());
+    }
+    out
+}
+
+fn signing_key(seed: &[u8; 32]) -> Ed25519SigningKey {
+    let kp = ring::signature::Ed25519KeyPair::from_seed_unchecked(seed).expect("ed25519 seed");
+    Ed25519SigningKey::from_ed25519(kp)
+}
+
+fn key_from_seed(seed: [u8; 32]) -> KeyMat {
+    let sk = signing_key(&seed);
+    let pk = sk.to_public_key().expect("public key");
+    let dnskey = DNSKEY::from_key(&pk);
+    let tag = dnskey.calculate_key_tag().expect("key tag");
+    KeyMat { seed, dnskey, pk, tag }
+}
+
+fn signer_for(k: &KeyMat, zone: &Name) -> DnssecSigner {
+    DnssecSigner::new(k.dnskey.clone(), Box::new(signing_key(&k.seed)), zone.clone(), SIG_VALID)
+}
+
+/// pairs of key seeds whose DNSKEYs have the same key tag (found once by search)
+fn colliding_pairs() -> &'static Vec<([u8; 32], [u8; 32])> {
+    static PAIRS: OnceLock<Vec<([u8; 32], [u8; 32])>> = OnceLock::new();
+    PAIRS.get_or_init(|| {
+        let mut by_tag: BTreeMap<u16, [u8; 32]> = BTreeMap::new();
+        let mut pairs = vec![];
+        let mut n = 0u64;
+        while pairs.len() < 8 && n < 20_000 {
+            let s = seed_bytes("c07-collide", n, 0);
+            let k = key_from_seed(s);
+            if let Some(prev) = by_tag.get(&k.tag) {
+                pairs.push((*prev, s));
+            } else {
+                by_tag.insert(k.tag, s);
+            }
+            n += 1;
+        }
+        pairs
+    })
+}
+
+fn zone_keys(sc: &Scenario, z: Z, spec: &ZoneSpec) -> Vec<KeyMat> {
+    if !spec.signed {
+        return vec![];
+    }
+    let mut keys: Vec<KeyMat> = (0..spec.nkeys)
+        .map(|i| key_from_seed(seed_bytes("c07-key", sc.seed as u64, (z.idx() * 8 + i as usize) as u64)))
+        .collect();
+    if spec.collide && spec.nkeys >= 2 {
+        let pairs = colliding_pairs();
+        if !pairs.is_empty() {
+            let (a, b) = pairs[(sc.seed as usize + z.idx()) % pairs.len()];
+            keys[0] = key_from_seed(a);
+            keys[1] = key_from_seed(b);
+        }
+    }
+    keys
+}
+
+// ---------------------------------------------------------------------------------------------
+// building the genuine zones
+
+fn name(s: &str) -> Name {
+    Name::from_ascii(s).expect("name")
+}
+
+fn sub(owner: &str, origin: &Name) -> Name {
+    if owner.is_empty() {
+        origin.clone()
+    } else {
+        Name::from_ascii(owner).expect("rel").append_domain(origin).expect("append")
+    }
+}
+
+fn rec(n: &Name, ttl: u32, d: RData) -> Record {
+    Record::from_rdata(n.clone(), ttl, d)
+}
+
+fn ds_records(child: &Name, spec: &ZoneSpec, keys: &[KeyMat], sc: &Scenario, z: Z) -> Vec<Record> {
+    let mut out = vec![];
+    let mut push = |ds: DS| out.push(rec(child, 3600, RData::DNSSEC(DNSSECRData::DS(ds))));
+    for (i, k) in keys.iter().enumerate() {
+        if spec.ds_mask & (1 << i) == 0 {
+            continue;
+        }
+        let d = |dt: DigestType| DS::from_key(&k.pk, child, dt).expect("ds");
+        let sha256 = d(DigestType::SHA256);
+        match spec.ds_kind {
+            DsKind::Sha256 => push(sha256),
+            DsKind::Sha384 => push(d(DigestType::SHA384)),
+            DsKind::Sha1 => push(d(DigestType::SHA1)),
+            DsKind::Sha256AndSha1 => {
+                push(sha256);
+                push(d(DigestType::SHA1));
+            }
+            DsKind::UnsupportedDigestOnly => {
+                push(DS::new(k.tag, Algorithm::ED25519, DigestType::Unknown(200), sha256.digest().to_vec()))
+            }
+            DsKind::UnsupportedAlgOnly => {
+                push(DS::new(k.tag, Algorithm::Unknown(200), DigestType::SHA256, sha256.digest().to_vec()))
+            }
+            DsKind::Sha256PlusUnsupported => {
+                push(DS::new(k.tag, Algorithm::ED25519, DigestType::Unknown(200), sha256.digest().to_vec()));
+                push(sha256);
+            }
+        }
+    }
+    if spec.stale_ds && spec.ds_mask != 0 {
+        let stale = key_from_seed(seed_bytes("c07-stale", sc.seed as u64, z.idx() as u64));
+        push(DS::from_key(&stale.pk, child, DigestType::SHA256).expect("ds"));
+    }
+    out
+}
+
+fn soa(origin: &Name) -> Record {
+    rec(
+        origin,
+        3600,
+        RData::SOA(SOA::new(sub("ns", origin), sub("hostmaster", origin), 1, 7200, 1800, 86400, 300)),
+    )
+}
+
+/// the plain records of zone z (without DNSSEC records, which hickory's signer adds)
+fn zone_data(sc: &Scenario, z: Z, child_ds: &BTreeMap<Z, Vec<Record>>) -> Vec<Record> {
+    let o = name(z.origin());
+    let mut v = vec![soa(&o), rec(&o, 3600, RData::NS(NS(sub("ns", &o)))), rec(&sub("ns", &o), 3600, RData::A(A(Ipv4Addr::new(192, 0, 2, 53))))];
+    let delegate = |v: &mut Vec<Record>, c: Z| {
+        let co = name(c.origin());
+        v.push(rec(&co, 3600, RData::NS(NS(sub("ns", &co)))));
+        if let Some(ds) = child_ds.get(&c) {
+            v.extend(ds.iter().cloned());
+        }
+    };
+    match z {
+        Z::Root => delegate(&mut v, Z::Tld),
+        Z::Tld => {
+            v.push(rec(&sub("h", &o), 600, RData::A(A(Ipv4Addr::new(192, 0, 2, 80)))));
+            delegate(&mut v, Z::Leaf);
+            if sc.sib.is_some() {
+                delegate(&mut v, Z::Sib);
+            }
+        }
+        Z::Leaf | Z::Sib => {
+            let a = sub("a", &o);
+            v.push(rec(&a, 600, RData::A(A(Ipv4Addr::new(192, 0, 2, 1)))));
+            v.push(rec(&a, 600, RData::A(A(Ipv4Addr::new(192, 0, 2, 2)))));
+            v.push(rec(&a, 600, RData::TXT(TXT::new(vec!["hello".to_string()]))));
+            v.push(rec(&sub("b", &o), 600, RData::AAAA(AAAA(Ipv6Addr::new(0x2001, 0xdb8, 0, 0, 0, 0, 0, 0xb)))));
+            v.push(rec(&sub("c", &o), 600, RData::CNAME(CNAME(a.clone()))));
+        }
+    }
+    v
+}
+
+struct ZoneBuilt {
+    z: Z,
+    origin: Name,
+    catalog: Catalog,
+    keys: Vec<KeyMat>,
+}
+
+struct World {
+    sc: Scenario,
+    zones: Vec<ZoneBuilt>,
+    attacker: KeyMat,
+    /// honest responses by (lower-cased qname, qtype)
+    cache: Mutex<HashMap<(String, u16), Message>>,
+}
+
+fn build_zone(z: Z, spec: &ZoneSpec, keys: &[KeyMat], data: Vec<Record>) -> ZoneBuilt {
+    let origin = name(z.origin());
+    let nx = if spec.signed {
+        Some(match spec.nx {
+            Nx::Nsec => NxProofKind::Nsec,
+            Nx::Nsec3 { salt_len, iterations } => NxProofKind::Nsec3 {
+                algorithm: Nsec3HashAlgorithm::SHA1,
+                salt: (0..salt_len).map(|i| 0xa0 + i).collect::<Vec<u8>>().into(),
+                iterations: iterations as u16,
+                opt_out: false,
+            },
+        })
+    } else {
+        None
+    };
+    let mut h = InMemoryZoneHandler::<SimRt>::empty(origin.clone(), ZoneType::Primary, AxfrPolicy::Deny, nx);
+    for r in data {
+        assert!(h.upsert_mut(r, 0), "zone record rejected");
+    }
+    if spec.signed {
+        for k in keys {
+            h.add_zone_signing_key_mut(signer_for(k, &origin)).expect("add key");
+        }
+        h.secure_zone_mut().expect("sign zone");
+    }
+    let mut catalog = Catalog::new();
+    let handler: Arc<dyn ZoneHandler> = Arc::new(h);
+    catalog.upsert(LowerName::new(&origin), vec![handler]);
+    ZoneBuilt { z, origin, catalog, keys: keys.to_vec() }
+}
+
+/// must run in virtual-clock mode at time BASE (signature inception = the signer's clock)
+fn build_world(sc: &Scenario) -> World {
+    debug_assert!(clock::is_virtual());
+    let mut order = vec![Z::Leaf];
+    if sc.sib.is_some() {
+        order.push(Z::Sib);
+    }
+    order.push(Z::Tld);
+    order.push(Z::Root);
+    let mut child_ds: BTreeMap<Z, Vec<Record>> = BTreeMap::new();
+    let mut zones = vec![];
+    for z in order {
+        let spec = sc.spec(z).expect("spec").clone();
+        let keys = zone_keys(sc, z, &spec);
+        if spec.signed && spec.ds_mask != 0 {
+            child_ds.insert(z, ds_records(&name(z.origin()), &spec, &keys, sc, z));
+        }
+        let data = zone_data(sc, z, &child_ds);
+        zones.push(build_zone(z, &spec, &keys, data));
+    }
+    zones.sort_by_key(|b| b.z);
+    World {
+        sc: sc.clone(),
+        zones,
+        attacker: key_from_seed(seed_bytes("c07-attacker", 0, 0)),
+        cache: Mutex::new(HashMap::new()),
+    }
+}
+
+impl World {
+    fn zone(&self, z: Z) -> &ZoneBuilt {
+        self.zones.iter().find(|b| b.z == z).expect("zone built")
+    }
+
+    /// RFC 1034 4.3.2 / RFC 4035 3.1.4.1: the closest enclosing zone answers, except that DS
+    /// lives on the parent side of the cut.
+    fn route(&self, qname: &Name, qtype: RecordType) -> &ZoneBuilt {
+        let mut best: Option<&ZoneBuilt> = None;
+        for b in &self.zones {
+            let encloses = b.origin.zone_of(qname);
+            let proper = encloses && b.origin.num_labels() < qname.num_labels();
+            let ok = if qtype == RecordType::DS && !qname.is_root() { proper } else { encloses };
+            if ok && best.is_none_or(|x| x.origin.num_labels() < b.origin.num_labels()) {
+                best = Some(b);
+            }
+        }
+        best.expect("the root zone encloses everything")
+    }
+
+    /// zone a record of this owner/type belongs to, for the status model
+    fn zone_of_record(&self, owner: &Name, rtype: RecordType) -> Z {
+        self.route(owner, rtype).z
+    }
+}
+
+#[derive(Clone)]
+struct Capture(Arc<Mutex<Option<Vec<u8>>>>);
+
+#[async_trait::async_trait]
+impl ResponseHandler for Capture {
+    async fn send_response<'a>(
+        &mut self,
+        response: MessageResponse<
+            '_,
+            'a,
+            impl Iterator<Item = &'a Record> + Send + 'a,
+            impl Iterator<Item = &'a Record> + Send + 'a,
+            impl Iterator<Item = &'a Record> + Send + 'a,
+            impl Iterator<Item = &'a Record> + Send + 'a,
+        >,
+    ) -> Result<ResponseInfo, NetError> {
+        let mut buf = Vec::with_capacity(1024);
+        let info = {
+            let mut enc = BinEncoder::new(&mut buf);
+            response.destructive_emit(&mut enc).map_err(NetError::from)?
+        };
+        *self.0.lock().unwrap() = Some(buf);
+        Ok(info)
+    }
+}
+
+async fn serve_honest(world: &World, qname: &Name, qtype: RecordType) -> Message {
+    let key = (qname.to_lowercase().to_ascii(), u16::from(qtype));
+    if let Some(m) = world.cache.lock().unwrap().get(&key) {
+        return m.clone();
+    }
+    let mut q = Message::query();
+    q.add_query(Query::new(qname.clone(), qtype));
+    q.metadata.recursion_desired = true;
+    let mut edns = Edns::new();
+    edns.set_max_payload(4096).set_dnssec_ok(true);
+    q.set_edns(edns);
+    let bytes = q.to_vec().expect("encode query");
+    let req = Request::from_bytes(bytes, SocketAddr::from(([127, 0, 0, 1], 5300)), Protocol::Tcp).expect("request");
+    let cap = Capture(Arc::new(Mutex::new(None)));
+    let zone = world.route(qname, qtype);
+    zone.catalog.handle_request::<_, SimTime>(&req, cap.clone()).await;
+    let buf = cap.0.lock().unwrap().take().expect("catalog produced a response");
+    let mut m = Message::from_vec(&buf).expect("decode honest response");
+    // hickory's authoritative server attaches the NSEC3 matching the query name to *positive*
+    // answers of NSEC3 zones (catalog.rs build_authoritative_response), which no other server
+    // does and which hickory's own validator then rejects for some query types. That is a
+    // server-side matter (C09/C10); the upstream modelled here is resolver-like and forwards what
+    // RFC 5155 7.2 asks for: NSEC3 only with negative and wildcard answers.
+    let wildcard = m.answers.iter().any(|r| match &r.data {
+        RData::DNSSEC(DNSSECRData::RRSIG(s)) => s.input().num_labels < r.name.num_labels(),
+        _ => false,
+    });
+    if !m.answers.is_empty() && !wildcard {
+        m.authorities.retain(|r| rrset_key(r).1 != RecordType::NSEC3);
+    }
+    world.cache.lock().unwrap().insert(key, m.clone());
+    m
+}
+
+// ---------------------------------------------------------------------------------------------
+// faults
+
+#[derive(Clone, Copy, Debug, PartialEq, Eq, Hash, Serialize, Deserialize)]
+pub enum Sec {
+    An,
+    Ns,
+    Ar,
+}
+
+#[derive(Clone, Copy, Debug, PartialEq, Eq, Hash, Serialize, Deserialize)]
+pub enum Sig {
+    /// keep the genuine RRSIGs
+    Keep,
+    /// no RRSIG at all
+    None,
+    /// RRSIG made with the attacker's own key (signer name = the genuine zone)
+    Attacker,
+}
+
+#[derive(Clone, Copy, Debug, PartialEq, Eq, Hash, Serialize, Deserialize)]
+pub enum Op {
+    /// flip one bit of the RDATA wire image (byte = pos per-mille of the length, mask)
+    FlipBit { permille: u16, mask: u8 },
+    DropRecord,
+    /// drop all RRSIGs covering the RRset the record belongs to
+    DropRrsigs,
+    /// drop the RRset the record belongs to together with its RRSIGs
+    DropRrset,
+    /// flip a bit in the signature field of an RRSIG
+    CorruptSig,
+    /// replace the RRset by attacker data of the same owner and type
+    Replace { sig: Sig },
+    /// add one attacker record to the RRset (signatures kept)
+    AddRecord,
+    /// DS only: digest and key tag of the attacker's key
+    SwapDs,
+    /// inject a new attacker RRset into the section; `own` = owner is the query name of that
+    /// exchange (otherwise `evil.<zone>`), `ns` = type NS (otherwise A)
+    Inject { own: bool, ns: bool, signed: bool },
+    /// drop every NSEC / NSEC3 (and covering RRSIG) of the response
+    DropNsec,
+    /// 0 = NOERROR, 3 = NXDOMAIN, 2 = SERVFAIL
+    Rcode { code: u8 },
+    /// strip RRSIG, NSEC, NSEC3 from all sections (what a DNSSEC-oblivious middlebox does)
+    StripDnssec,
+    /// remove every record from every section
+    Empty,
+    /// replace rcode and all sections by the genuine response of the same zone to another query
+    /// (index into `pool_queries` of the serving zone): genuine, validly signed, out of context
+    Replay { pool: u8 },
+}
+
+impl Op {
+    fn response_level(&self) -> bool {
+        matches!(self, Op::Inject { .. } | Op::DropNsec | Op::Rcode { .. } | Op::StripDnssec | Op::Empty | Op::Replay { .. })
+    }
+}
+
+/// One tampering. It is addressed by the query whose response it hits (not by a position in a
+/// trace, whose order depends on hickory's HashMap iteration): the response to <qname qtype> is
+/// tampered with every time that query is asked.
+#[derive(Clone, Debug, PartialEq, Eq, Hash, Serialize, Deserialize)]
+pub struct Fault {
+    /// lower-case presentation form, e.g. "l.t."
+    pub qname: String,
+    /// type mnemonic, e.g. "DS"
+    pub qtype: String,
+    pub sec: Sec,
+    pub idx: u16,
+    pub op: Op,
+}
+
+impl Fault {
+    fn hits(&self, ex: &Exchange) -> bool {
+        ex.qtype.to_string() == self.qtype && ex.qname.to_lowercase().to_ascii() == self.qname
+    }
+    fn same_response(&self, o: &Fault) -> bool {
+        self.qname == o.qname && self.qtype == o.qtype
+    }
+}
+
+fn section(m: &mut Message, s: Sec) -> &mut Vec<Record> {
+    match s {
+        Sec::An => &mut m.answers,
+        Sec::Ns => &mut m.authorities,
+        Sec::Ar => &mut m.additionals,
+    }
+}
+
+fn section_ref(m: &Message, s: Sec) -> &Vec<Record> {
+    match s {
+        Sec::An => &m.answers,
+        Sec::Ns => &m.authorities,
+        Sec::Ar => &m.additionals,
+    }
+}
+
+/// (lower-cased owner, covered type) and whether the record is an RRSIG
+fn rrset_key(r: &Record) -> (Name, RecordType, bool) {
+    match &r.data {
+        RData::DNSSEC(DNSSECRData::RRSIG(s)) => (r.name.to_lowercase(), s.input().type_covered, true),
+        _ => (r.name.to_lowercase(), r.record_type(), false),
+    }
+}
+
+fn rdata_bytes(d: &RData) -> Vec<u8> {
+    d.to_bytes().unwrap_or_default()
+}
+
+fn flip(d: &RData, permille: u16, mask: u8) -> Option<RData> {
+    let rt = d.record_type();
+    let mut b = rdata_bytes(d);
+    if b.is_empty() {
+        return None;
+    }
+    let pos = ((b.len() - 1) as u64 * permille as u64 / 1000) as usize;
+    b[pos] ^= mask;
+    let nd = RData::read(BinDecoder::new(&b), rt).ok()?;
+    // the tampered value must survive a wire round trip unchanged, otherwise the "fault" is not
+    // expressible as a DNS message
+    if rdata_bytes(&nd) != b {
+        return None;
+    }
+    Some(nd)
+}
+
+fn attacker_rdata(t: RecordType, owner: &Name, zone: &Name, att: &KeyMat, orig: Option<&RData>) -> Option<RData> {
+    Some(match t {
+        RecordType::A => RData::A(A(Ipv4Addr::new(203, 0, 113, 66))),
+        RecordType::AAAA => RData::AAAA(AAAA(Ipv6Addr::new(0x2001, 0xdb8, 0, 0, 0, 0, 0, 0x666))),
+        RecordType::TXT => RData::TXT(TXT::new(vec!["evil".to_string()])),
+        RecordType::NS => RData::NS(NS(name("ns.evil."))),
+        RecordType::CNAME => RData::CNAME(CNAME(name("www.evil."))),
+        RecordType::MX => RData::MX(MX::new(10, name("mx.evil."))),
+        RecordType::SOA => RData::SOA(SOA::new(name("ns.evil."), sub("hostmaster", zone), 4242, 7200, 1800, 86400, 300)),
+        RecordType::DNSKEY => RData::DNSSEC(DNSSECRData::DNSKEY(att.dnskey.clone())),
+        RecordType::DS => RData::DNSSEC(DNSSECRData::DS(DS::from_key(&att.pk, owner, DigestType::SHA256).ok()?)),
+        // an NSEC that claims nothing exists between its owner and the apex and that the owner
+        // has no types
+        RecordType::NSEC => RData::DNSSEC(DNSSECRData::NSEC(NSEC::new(zone.clone(), [RecordType::RRSIG, RecordType::NSEC]))),
+        RecordType::NSEC3 => match orig {
+            Some(RData::DNSSEC(DNSSECRData::NSEC3(o))) => RData::DNSSEC(DNSSECRData::NSEC3(NSEC3::new(
+                o.hash_algorithm(),
+                o.opt_out(),
+                o.iterations(),
+                o.salt().to_vec(),
+                vec![0xff; o.next_hashed_owner_name().len().max(1)],
+                [RecordType::RRSIG],
+            ))),
+            _ => return None,
+        },
+        _ => return None,
+    })
+}
+
+fn attacker_sig(rrset: &[Record], zone: &Name, att: &KeyMat) -> Option<Record> {
+    let first = rrset.first()?;
+    let mut rs = RecordSet::with_ttl(first.name.clone(), first.record_type(), first.ttl);
+    for r in rrset {
+        rs.add_rdata(r.data.clone());
+    }
+    let inception = OffsetDateTime::from_unix_timestamp(BASE as i64).ok()?;
+    let sig = RRSIG::from_rrset(&rs, DNSClass::IN, inception, &signer_for(att, zone)).ok()?;
+    Some(Record::from_rdata(first.name.clone(), first.ttl, RData::DNSSEC(DNSSECRData::RRSIG(sig))))
+}
+
+/// a small set of other queries each zone answers, as replay material
+fn pool_queries(sc: &Scenario, z: Z) -> Vec<(Name, RecordType)> {
+    let o = name(z.origin());
+    let q = |owner: &str, t: RecordType| (sub(owner, &o), t);
+    match z {
+        Z::Leaf | Z::Sib => vec![
+            q("a", RecordType::A),
+            q("a", RecordType::TXT),
+            q("b", RecordType::AAAA),
+            q("c", RecordType::A),
+            q("nx", RecordType::A),
+            q("", RecordType::SOA),
+            q("", RecordType::DNSKEY),
+            q("", RecordType::NS),
+            q("z.a", RecordType::A),
+            q("ns", RecordType::A),
+        ],
+        Z::Tld => {
+            let mut v = vec![
+                q("h", RecordType::A),
+                q("nx", RecordType::A),
+                q("", RecordType::SOA),
+                q("", RecordType::DNSKEY),
+                q("h", RecordType::TXT),
+                (name("l.t."), RecordType::DS),
+            ];
+            if sc.sib.is_some() {
+                v.push((name("s.t."), RecordType::DS));
+            }
+            v
+        }
+        Z::Root => vec![
+            (name("t."), RecordType::DS),
+            q("", RecordType::DNSKEY),
+            q("nx", RecordType::A),
+            q("", RecordType::SOA),
+            q("", RecordType::NS),
+        ],
+    }
+}
+
+/// Apply one fault to a response. `zone` = origin of the zone that served it. Err = the fault
+/// is not applicable to this message (counted as a discard).
+fn apply_fault(m: &mut Message, f: &Fault, qname: &Name, qtype: RecordType, zone: &Name, world: &World) -> Result<(), &'static str> {
+    let idx = f.idx as usize;
+    let att = &world.attacker;
+    match f.op {
+        Op::Replay { pool } => {
+            let z = world.zones.iter().find(|b| b.origin == *zone).map(|b| b.z).ok_or("no-such-zone")?;
+            let (n, t) = pool_queries(&world.sc, z).into_iter().nth(pool as usize).ok_or("no-such-pool-entry")?;
+            if t == qtype && n.to_lowercase() == qname.to_lowercase() {
+                return Err("replay-of-itself");
+            }
+            let other = world.cache.lock().unwrap().get(&(n.to_lowercase().to_ascii(), u16::from(t))).cloned().ok_or("pool-not-prefetched")?;
+            m.metadata.response_code = other.metadata.response_code;
+            m.answers = other.answers;
+            m.authorities = other.authorities;
+            m.additionals = other.additionals;
+        }
+        Op::Rcode { code } => {
+            let rc = ResponseCode::from(0, code);
+            if m.metadata.response_code == rc {
+                return Err("rcode-unchanged");
+            }
+            m.metadata.response_code = rc;
+        }
+        Op::StripDnssec => {
+            let mut n = 0;
+            for s in [Sec::An, Sec::Ns, Sec::Ar] {
+                let v = section(m, s);
+                let before = v.len();
+                v.retain(|r| !matches!(r.record_type(), RecordType::RRSIG | RecordType::NSEC | RecordType::NSEC3));
+                n += before - v.len();
+            }
+            if n == 0 {
+                return Err("nothing-to-strip");
+            }
+        }
+        Op::DropNsec => {
+            let mut n = 0;
+            for s in [Sec::An, Sec::Ns, Sec::Ar] {
+                let v = section(m, s);
+                let before = v.len();
+                v.retain(|r| !matches!(rrset_key(r).1, RecordType::NSEC | RecordType::NSEC3));
+                n += before - v.len();
+            }
+            if n == 0 {
+                return Err("no-nsec");
+            }
+        }
+        Op::Empty => {
+            let n = m.answers.len() + m.authorities.len() + m.additionals.len();
+            if n == 0 {
+                return Err("already-empty");
+            }
+            m.answers.clear();
+            m.authorities.clear();
+            m.additionals.clear();
+        }
+        Op::Inject { own, ns, signed } => {
+            let owner = if own { qname.clone() } else { sub("evil", zone) };
+            let t = if ns { RecordType::NS } else if own && qtype != RecordType::NS { qtype } else { RecordType::A };
+            let d = attacker_rdata(t, &owner, zone, att, None).or_else(|| attacker_rdata(RecordType::A, &owner, zone, att, None)).ok_or("no-attacker-data")?;
+            let r = rec(&owner, 600, d);
+            let v = section(m, f.sec);
+            if signed {
+                if let Some(s) = attacker_sig(std::slice::from_ref(&r), zone, att) {
+                    v.push(r);
+                    v.push(s);
+                } else {
+                    return Err("cannot-sign");
+                }
+            } else {
+                v.push(r);
+            }
+        }
+        _ => {
+            // record-level operators
+            let v = section(m, f.sec);
+            if idx >= v.len() {
+                return Err("no-such-record");
+            }
+            let key = rrset_key(&v[idx]);
+            match f.op {
+                Op::FlipBit { permille, mask } => {
+                    let nd = flip(&v[idx].data, permille, mask).ok_or("flip-undecodable")?;
+                    v[idx].data = nd;
+                }
+                Op::DropRecord => {
+                    v.remove(idx);
+                }
+                Op::CorruptSig => {
+                    let RData::DNSSEC(DNSSECRData::RRSIG(s)) = &v[idx].data else {
+                        return Err("not-an-rrsig");
+                    };
+                    let mut sig = s.sig().to_vec();
+                    if sig.is_empty() {
+                        return Err("empty-sig");
+                    }
+                    let p = sig.len() / 2;
+                    sig[p] ^= 0x01;
+                    v[idx].data = RData::DNSSEC(DNSSECRData::RRSIG(RRSIG::from_sig(s.input().clone(), sig)));
+                }
+                Op::SwapDs => {
+                    let RData::DNSSEC(DNSSECRData::DS(_)) = &v[idx].data else {
+                        return Err("not-a-ds");
+                    };
+                    let owner = v[idx].name.clone();
+                    v[idx].data = attacker_rdata(RecordType::DS, &owner, zone, att, None).ok_or("no-attacker-data")?;
+                }
+                Op::DropRrsigs => {
+                    if key.2 {
+                        return Err("is-rrsig");
+                    }
+                    let before = v.len();
+                    v.retain(|r| {
+                        let k = rrset_key(r);
+                        !(k.2 && k.0 == key.0 && k.1 == key.1)
+                    });
+                    if v.len() == before {
+                        return Err("no-rrsigs");
+                    }
+                }
+                Op::DropRrset => {
+                    if key.2 {
+                        return Err("is-rrsig");
+                    }
+                    v.retain(|r| {
+                        let k = rrset_key(r);
+                        !(k.0 == key.0 && k.1 == key.1)
+                    });
+                }
+                Op::AddRecord => {
+                    if key.2 {
+                        return Err("is-rrsig");
+                    }
+                    let owner = v[idx].name.clone();
+                    let d = attacker_rdata(key.1, &owner, zone, att, Some(&v[idx].data)).ok_or("no-attacker-data")?;
+                    if v.iter().any(|r| !rrset_key(r).2 && rrset_key(r).0 == key.0 && r.data == d) {
+                        return Err("attacker-data-equals-genuine");
+                    }
+                    let ttl = v[idx].ttl;
+                    v.insert(idx + 1, rec(&owner, ttl, d));
+                }
+                Op::Replace { sig } => {
+                    if key.2 {
+                        return Err("is-rrsig");
+                    }
+                    let owner = v[idx].name.clone();
+                    let ttl = v[idx].ttl;
+                    let d = attacker_rdata(key.1, &owner, zone, att, Some(&v[idx].data)).ok_or("no-attacker-data")?;
+                    let newrec = rec(&owner, ttl, d);
+                    let pos = v.iter().position(|r| {
+                        let k = rrset_key(r);
+                        k.0 == key.0 && k.1 == key.1
+                    });
+                    let pos = pos.unwrap_or(0);
+                    // remove the data records (and, unless kept, the signatures)
+                    v.retain(|r| {
+                        let k = rrset_key(r);
+                        !(k.0 == key.0 && k.1 == key.1 && (!k.2 || sig != Sig::Keep))
+                    });
+                    let pos = pos.min(v.len());
+                    if sig == Sig::Attacker {
+                        let s = attacker_sig(std::slice::from_ref(&newrec), zone, att).ok_or("cannot-sign")?;
+                        v.insert(pos, s);
+                    }
+                    v.insert(pos, newrec);
+                }
+                _ => unreachable!(),
+            }
+        }
+    }
+    Ok(())
+}
+
+// ---------------------------------------------------------------------------------------------
+// the scripted upstream
+
+#[derive(Clone, Debug)]
+struct Exchange {
+    qname: Name,
+    qtype: RecordType,
+    zone: Name,
+    honest: Message,
+    /// what was actually delivered
+    delivered: Message,
+    /// number of faults applied to this response
+    tampered: usize,
+}
+
+/// a fault resolved against the fault-free trace: which query it hits
+#[derive(Clone)]
+struct Armed {
+    qname: Name,
+    qtype: RecordType,
+    fault: Fault,
+}
+
+struct UpInner {
+    world: Arc<World>,
+    armed: Vec<Armed>,
+    log: Mutex<Vec<Exchange>>,
+    inapplicable: Mutex<Option<&'static str>>,
+}
+
+#[derive(Clone)]
+struct Upstream(Arc<UpInner>);
+
+impl DnsHandle for Upstream {
+    type Response = Pin<Box<dyn Stream<Item = Result<DnsResponse, NetError>> + Send>>;
+    type Runtime = SimRt;
+
+    fn send(&self, request: DnsRequest) -> Self::Response {
+        let inner = self.0.clone();
+        Box::pin(stream::once(async move {
+            let Some(q) = request.queries.first().cloned() else {
+                return Err(NetError::from("no query"));
+            };
+            let id = request.metadata.id;
+            let honest = serve_honest(&inner.world, &q.name, q.query_type).await;
+            let zone = inner.world.route(&q.name, q.query_type).origin.clone();
+            let mut m = honest.clone();
+            let mut tampered = 0;
+            for a in &inner.armed {
+                if a.qtype == q.query_type && a.qname.to_lowercase() == q.name.to_lowercase() {
+                    match apply_fault(&mut m, &a.fault, &q.name, q.query_type, &zone, &inner.world) {
+                        Ok(()) => tampered += 1,
+                        Err(why) => {
+                            inner.inapplicable.lock().unwrap().get_or_insert(why);
+                        }
+                    }
+                }
+            }
+            inner.log.lock().unwrap().push(Exchange {
+                qname: q.name.clone(),
+                qtype: q.query_type,
+                zone,
+                honest,
+                delivered: m.clone(),
+                tampered,
+            });
+            m.metadata.id = id;
+            m.metadata.message_type = MessageType::Response;
+            // what arrives is what the wire carries: go through the encoder and the decoder
+            let bytes = m.to_vec().map_err(NetError::from)?;
+            let resp = DnsResponse::from_buffer(bytes).map_err(NetError::from)?;
+            if inner.world.sc.err_style {
+                DnsError::from_response(resp).map_err(NetError::from)
+            } else {
+                Ok(resp)
+            }
+        }))
+    }
+}
+
+enum Outcome {
+    /// the validator panicked
+    Panic(Fail),
+    Msg(Box<Message>),
+    /// Err(Nsec { proof }) carries a verdict of its own
+    NsecErr(Proof, String),
+    Err(String),
+}
+
+struct Run {
+    outcome: Outcome,
+    log: Vec<Exchange>,
+    inapplicable: Option<&'static str>,
+}
+
+/// one validation by a fresh `DnssecDnsHandle` (fresh validation cache) at BASE + 1 h
+fn run_validation(world: &Arc<World>, armed: Vec<Armed>, q: &Query) -> Run {
+    debug_assert!(clock::is_virtual());
+    clock::set_virtual_nanos(QUERY_AFTER * 1_000_000_000);
+    let up = Upstream(Arc::new(UpInner {
+        world: world.clone(),
+        armed,
+        log: Mutex::new(vec![]),
+        inapplicable: Mutex::new(None),
+    }));
+    let mut anchors = TrustAnchors::empty();
+    let az = world.zone(world.sc.anchor.zone);
+    for (i, k) in az.keys.iter().enumerate() {
+        if world.sc.anchor.mask & (1 << i) != 0 {
+            anchors.insert(&k.pk);
+        }
+    }
+    let handle = DnssecDnsHandle::with_trust_anchor(up.clone(), Arc::new(anchors));
+    let mut options = DnsRequestOptions::default();
+    options.use_edns = true;
+    options.edns_set_dnssec_ok = true;
+    let res = crate::core::catch(|| futures_executor::block_on(handle.lookup(q.clone(), options).first_answer()));
+    let res = match res {
+        Ok(r) => r,
+        Err(p) => {
+            let log = std::mem::take(&mut *up.0.log.lock().unwrap_or_else(|e| e.into_inner()));
+            clock::set_virtual_nanos(0);
+            let mut f = crate::core::panic_fail(&p);
+            // one signature per root cause: name the precondition where it is known
+            let dnskey_sig_without_key = log.iter().filter(|e| e.tampered > 0).any(|e| {
+                let d = &e.delivered;
+                d.answers.iter().any(|r| rrset_key(r) == (r.name.to_lowercase(), RecordType::DNSKEY, true))
+                    && !d.answers.iter().any(|r| r.record_type() == RecordType::DNSKEY)
+            });
+            if dnskey_sig_without_key && p.0.contains("Option::unwrap()") && p.1.contains("dnssec/mod.rs") {
+                f.sig = "panic-verify-dnskey-rrset-rrsig-without-dnskey-records".into();
+            }
+            return Run { outcome: Outcome::Panic(f), log, inapplicable: None };
+        }
+    };
+    let outcome = match res {
+        Ok(resp) => Outcome::Msg(Box::new(resp.into_message())),
+        Err(NetError::Dns(DnsError::Nsec { proof, .. })) => Outcome::NsecErr(proof, format!("Nsec error, proof {proof}")),
+        Err(e) => Outcome::Err(e.to_string()),
+    };
+    drop(handle);
+    let log = std::mem::take(&mut *up.0.log.lock().unwrap());
+    let inapplicable = *up.0.inapplicable.lock().unwrap();
+    clock::set_virtual_nanos(0);
+    if std::env::var_os("C07_TRACE").is_some() {
+        eprintln!("---- validation of {q}");
+        for (i, ex) in log.iter().enumerate() {
+            eprintln!("  [{i}] upstream <{} {}> served by zone {}{}", ex.qname, ex.qtype, ex.zone, if ex.tampered > 0 { "  ** TAMPERED **" } else { "" });
+            eprintln!("      {}", show_msg(&ex.delivered).replace('\n', "\n  "));
+        }
+        match &outcome {
+            Outcome::Msg(m) => eprintln!("  => Ok {}", show_msg(m)),
+            Outcome::NsecErr(_, e) | Outcome::Err(e) => eprintln!("  => Err {e}"),
+            Outcome::Panic(f) => eprintln!("  => PANIC {}", f.msg),
+        }
+    }
+    Run { outcome, log, inapplicable }
+}
+
+// ---------------------------------------------------------------------------------------------
+// per-thread cache of the built scenario (zones are expensive, faults are many)
+
+struct Prepared {
+    world: Arc<World>,
+    query: Query,
+    /// fault-free run
+    base_log: Vec<Exchange>,
+    base_ok: Result<(), Fail>,
+    /// genuine records: (owner lower ascii, type, rdata octets) -> largest genuine TTL
+    genuine: RefCell<HashMap<(String, u16, Vec<u8>), u32>>,
+    /// all single faults in enumeration order
+    faults: Vec<Fault>,
+}
+
+thread_local! {
+    static PREPARED: RefCell<Option<(u64, std::rc::Rc<Prepared>)>> = const { RefCell::new(None) };
+}
+
+fn scenario_hash(sc: &Scenario) -> u64 {
+    fixed_hash(&[serde_json::to_string(sc).unwrap_or_default().as_bytes()])
+}
+
+fn query_of(sc: &Scenario) -> Query {
+    let o = name(sc.q.zone.origin());
+    let qname = sub(&sc.q.owner, &o);
+    let qtype = RecordType::from_str(&sc.q.qtype).unwrap_or(RecordType::A);
+    Query::new(qname, qtype)
+}
+
+fn rec_key(r: &Record) -> (String, u16, Vec<u8>) {
+    (r.name.to_lowercase().to_ascii(), u16::from(r.record_type()), rdata_bytes(&r.data))
+}
+
+fn learn_genuine(g: &mut HashMap<(String, u16, Vec<u8>), u32>, m: &Message) {
+    for r in m.answers.iter().chain(&m.authorities).chain(&m.additionals) {
+        let e = g.entry(rec_key(r)).or_insert(0);
+        *e = (*e).max(r.ttl);
+    }
+}
+
+fn prepare(sc: &Scenario) -> std::rc::Rc<Prepared> {
+    let h = scenario_hash(sc);
+    if let Some(p) = PREPARED.with(|p| p.borrow().as_ref().filter(|(k, _)| *k == h).map(|(_, v)| v.clone())) {
+        return p;
+    }
+    let world = Arc::new(build_world(sc));
+    let query = query_of(sc);
+    let mut genuine = HashMap::new();
+    for b in &world.zones {
+        for (n, t) in pool_queries(sc, b.z) {
+            let m = futures_executor::block_on(serve_honest(&world, &n, t));
+            learn_genuine(&mut genuine, &m);
+        }
+    }
+    let run = run_validation(&world, vec![], &query);
+    for ex in &run.log {
+        learn_genuine(&mut genuine, &ex.honest);
+    }
+    let base_ok = judge(&world, &query, &run, &genuine, false);
+    let faults = enumerate_faults(&world, &run.log, true);
+    let p = std::rc::Rc::new(Prepared {
+        world,
+        query,
+        base_log: run.log,
+        base_ok,
+        genuine: RefCell::new(genuine),
+        faults,
+    });
+    PREPARED.with(|c| *c.borrow_mut() = Some((h, p.clone())));
+    p
+}
+
+// ---------------------------------------------------------------------------------------------
+// fault enumeration over the fault-free trace
+
+#[derive(Clone, Copy, PartialEq, Eq, Debug)]
+enum Kind {
+    /// the response to the user's query: every RRset of every section is validated
+    Top,
+    /// validated sub-query for DNSKEY / DS (request depth > 1: only DNSSEC types are looked at)
+    Chain,
+    /// un-validated NS probe of the zone-cut search
+    Probe,
+}
+
+fn kind_of(i: usize, ex: &Exchange) -> Kind {
+    if i == 0 {
+        Kind::Top
+    } else if matches!(ex.qtype, RecordType::DNSKEY | RecordType::DS) {
+        Kind::Chain
+    } else {
+        Kind::Probe
+    }
+}
+
+/// NT rule: did the validator consume this record in the fault-free run?
+fn consumed(kind: Kind, ex: &Exchange, sec: Sec, r: &Record) -> bool {
+    let t = rrset_key(r).1;
+    match kind {
+        Kind::Top => true,
+        Kind::Chain => match sec {
+            Sec::An => true,
+            Sec::Ns => matches!(t, RecordType::NSEC | RecordType::NSEC3 | RecordType::SOA | RecordType::DS | RecordType::DNSKEY),
+            Sec::Ar => false,
+        },
+        Kind::Probe => r.record_type() == RecordType::NS && r.name.to_lowercase() == ex.qname.to_lowercase(),
+    }
+}
+
+const FLIPS: &[(u16, u8)] = &[(0, 0x01), (500, 0x04), (1000, 0x01)];
+
+/// indices of the first exchange per distinct query, in a canonical order that does not depend
+/// on the order in which the validator happened to ask: `first` (the top-level query when the
+/// log starts with it) stays in front, the rest is sorted by (qname, qtype)
+fn first_occurrences(log: &[Exchange], keep_first: bool) -> Vec<usize> {
+    let mut seen = BTreeSet::new();
+    let mut v = vec![];
+    for (i, ex) in log.iter().enumerate() {
+        if seen.insert((ex.qname.to_lowercase().to_ascii(), u16::from(ex.qtype))) {
+            v.push(i);
+        }
+    }
+    let skip = usize::from(keep_first && !v.is_empty());
+    v[skip..].sort_by_key(|i| (log[*i].qname.to_lowercase().to_ascii(), u16::from(log[*i].qtype)));
+    v
+}
+
+fn enumerate_faults(world: &World, log: &[Exchange], keep_first: bool) -> Vec<Fault> {
+    let mut out = vec![];
+    for ri in first_occurrences(log, keep_first) {
+        let ex = &log[ri];
+        let m = &ex.honest;
+        let (qname, qtype) = (ex.qname.to_lowercase().to_ascii(), ex.qtype.to_string());
+        let mut push = |sec: Sec, idx: usize, op: Op| out.push(Fault { qname: qname.clone(), qtype: qtype.clone(), sec, idx: idx as u16, op });
+        for code in [0u8, 3, 2] {
+            if u16::from(m.metadata.response_code) != code as u16 {
+                push(Sec::An, 0, Op::Rcode { code });
+            }
+        }
+        let all = || m.answers.iter().chain(&m.authorities).chain(&m.additionals);
+        if all().any(|r| matches!(r.record_type(), RecordType::RRSIG | RecordType::NSEC | RecordType::NSEC3)) {
+            push(Sec::An, 0, Op::StripDnssec);
+        }
+        if all().any(|r| matches!(rrset_key(r).1, RecordType::NSEC | RecordType::NSEC3)) {
+            push(Sec::An, 0, Op::DropNsec);
+        }
+        if all().next().is_some() {
+            push(Sec::An, 0, Op::Empty);
+        }
+        if let Some(z) = world.zones.iter().find(|b| b.origin == ex.zone).map(|b| b.z) {
+            for (pi, (n, t)) in pool_queries(&world.sc, z).into_iter().enumerate() {
+                if !(t == ex.qtype && n.to_lowercase() == ex.qname.to_lowercase()) {
+                    push(Sec::An, 0, Op::Replay { pool: pi as u8 });
+                }
+            }
+        }
+        for sec in [Sec::An, Sec::Ns] {
+            for own in [true, false] {
+                for ns in [false, true] {
+                    for signed in [false, true] {
+                        push(sec, 0, Op::Inject { own, ns, signed });
+                    }
+                }
+            }
+        }
+        for sec in [Sec::An, Sec::Ns, Sec::Ar] {
+            let v = section_ref(m, sec);
+            for (i, r) in v.iter().enumerate() {
+                let key = rrset_key(r);
+                push(sec, i, Op::DropRecord);
+                for (permille, mask) in FLIPS {
+                    if flip(&r.data, *permille, *mask).is_some() {
+                        push(sec, i, Op::FlipBit { permille: *permille, mask: *mask });
+                    }
+                }
+                if key.2 {
+                    push(sec, i, Op::CorruptSig);
+                    continue;
+                }
+                if matches!(r.data, RData::DNSSEC(DNSSECRData::DS(_))) {
+                    push(sec, i, Op::SwapDs);
+                }
+                let first = v.iter().position(|x| {
+                    let k = rrset_key(x);
+                    !k.2 && k.0 == key.0 && k.1 == key.1
+                }) == Some(i);
+                if !first {
+                    continue;
+                }
+                let has_sigs = v.iter().any(|x| {
+                    let k = rrset_key(x);
+                    k.2 && k.0 == key.0 && k.1 == key.1
+                });
+                if has_sigs {
+                    push(sec, i, Op::DropRrsigs);
+                }
+                push(sec, i, Op::DropRrset);
+                if attacker_rdata(key.1, &r.name, &ex.zone, &world.attacker, Some(&r.data)).is_some() {
+                    push(sec, i, Op::AddRecord);
+                    for sig in [Sig::Keep, Sig::None, Sig::Attacker] {
+                        if sig == Sig::Keep && !has_sigs {
+                            continue;
+                        }
+                        push(sec, i, Op::Replace { sig });
+                    }
+                }
+            }
+        }
+    }
+    out
+}
+
+// ---------------------------------------------------------------------------------------------
+// the oracle
+
+fn show_rec(r: &Record) -> String {
+    format!("{} {} {} [{}]", r.name, r.record_type(), r.data, r.proof)
+}
+
+fn show_msg(m: &Message) -> String {
+    let mut s = format!("rcode={}", m.metadata.response_code);
+    for (label, v) in [("AN", &m.answers), ("NS", &m.authorities), ("AR", &m.additionals)] {
+        for r in v {
+            s.push_str(&format!("\n    {label} {}", show_rec(r)));
+        }
+    }
+    s
+}
+
+#[derive(Clone, Copy, PartialEq, Eq, Debug)]
+enum Class {
+    Positive,
+    NoData,
+    NxDomain,
+    /// rcode other than NOERROR / NXDOMAIN
+    Failure,
+}
+
+/// The answer a resolver extracts for (qname, qtype) (RFC 1034 4.3.2 / 5.3.3): records owned by
+/// the query name with the query type or CNAME, followed along the CNAME chain. RRSIGs excluded.
+fn relevant<'a>(q: &Query, answers: &'a [Record]) -> Vec<&'a Record> {
+    let mut out: Vec<&Record> = vec![];
+    let mut owner = q.name.to_lowercase();
+    for _ in 0..8 {
+        let mut next = None;
+        for r in answers.iter().filter(|r| r.record_type() != RecordType::RRSIG && r.name.to_lowercase() == owner) {
+            if r.record_type() == q.query_type {
+                out.push(r);
+            } else if let RData::CNAME(c) = &r.data {
+                out.push(r);
+                next = Some(c.0.to_lowercase());
+            }
+        }
+        match next {
+            Some(n) if q.query_type != RecordType::CNAME => owner = n,
+            _ => break,
+        }
+    }
+    out
+}
+
+/// Classified by content, as a resolver would: the header rcode is covered by no signature and
+/// the property speaks about records, so a positive answer stays positive whatever the rcode
+/// (NOERROR / NXDOMAIN) says.
+fn class_of(q: &Query, m: &Message) -> Class {
+    match m.metadata.response_code {
+        ResponseCode::NoError | ResponseCode::NXDomain if !relevant(q, &m.answers).is_empty() => Class::Positive,
+        ResponseCode::NoError => Class::NoData,
+        ResponseCode::NXDomain => Class::NxDomain,
+        _ => Class::Failure,
+    }
+}
+
+fn key_set(v: &[&Record]) -> BTreeSet<(String, u16, Vec<u8>)> {
+    v.iter().map(|r| rec_key(r)).collect()
+}
+
+fn rrsets(v: &[&Record]) -> BTreeMap<(String, u16), BTreeSet<Vec<u8>>> {
+    let mut m: BTreeMap<(String, u16), BTreeSet<Vec<u8>>> = BTreeMap::new();
+    for r in v {
+        let (o, t, d) = rec_key(r);
+        m.entry((o, t)).or_default().insert(d);
+    }
+    m
+}
+
+/// every RRset present in `got` is the complete genuine RRset. A CNAME chain cut short (its tail
+/// RRsets absent) claims nothing false: the resolver simply has to chase the rest itself.
+fn rrsets_genuine(got: &[&Record], honest: &[&Record]) -> bool {
+    let h = rrsets(honest);
+    rrsets(got).iter().all(|(k, set)| h.get(k) == Some(set))
+}
+
+/// status of the queried name per the reference model; DS lives in the parent
+fn query_status(world: &World, q: &Query) -> Option<bool> {
+    world.sc.status(world.zone_of_record(&q.name, q.query_type))
+}
+
+/// Root cause C (fetch_ds_records: owner name of DS records not compared with the zone).
+pub const KC: &str = "ds-records-of-another-owner-used-for-the-zone";
+/// verify_nsec3: NODATA for the apex name accepted with NSEC3 records that match nothing.
+pub const KN1: &str = "nsec3-nodata-at-apex-accepted-without-matching-nsec3";
+/// verify_nsec3: the wrap-around NSEC3 record is taken to cover every name.
+pub const KN2: &str = "nsec3-wraparound-record-covers-every-name";
+
+/// Name the path of a downgrade / acceptance from what was delivered upstream, so that one
+/// signature corresponds to one root cause in the validator.
+/// Root cause A (verify_response, the "no NSEC and a non-empty answer section => Ok" branch).
+pub const KA: &str = "unrelated-answer-section-accepted-without-denial";
+/// Root cause B (find_ds_records / fetch_ds_records, RFC 6840 4.4 NS-bit check missing).
+pub const KB: &str = "ds-denial-at-non-delegation-name-accepted-as-insecure-delegation";
+
+/// Name the path of a downgrade / acceptance from what was delivered upstream, so that one
+/// signature corresponds to one root cause in the validator. None = no known pattern.
+fn tamper_path(world: &World, run: &Run) -> Option<&'static str> {
+    // fetch_ds_records takes every DS-type record of the answer section, whatever its owner: a
+    // genuine (validly signed) DS RRset of *another* delegation, replayed into the DS response
+    // for this zone, passes the "any DS record is Secure" gate; when it holds only unsupported
+    // algorithms / digests the zone is declared Insecure.
+    for ex in run.log.iter().filter(|e| e.tampered > 0 && e.qtype == RecordType::DS) {
+        if ex.delivered.answers.iter().any(|r| r.record_type() == RecordType::DS && r.name.to_lowercase() != ex.qname.to_lowercase()) {
+            return Some(KC);
+        }
+    }
+    for ex in run.log.iter().filter(|e| e.tampered > 0) {
+        let d = &ex.delivered;
+        let q = Query::new(ex.qname.clone(), ex.qtype);
+        // an NSEC/NSEC3 that could be validated at all: it has a covering RRSIG whose signer is a
+        // zone at or below the trust anchor
+        let has_signed_nsec = d.authorities.iter().any(|r| {
+            matches!(r.record_type(), RecordType::NSEC | RecordType::NSEC3)
+                && d.authorities.iter().any(|s| match &s.data {
+                    RData::DNSSEC(DNSSECRData::RRSIG(sig)) => {
+                        rrset_key(s) == (r.name.to_lowercase(), r.record_type(), true)
+                            && world.zones.iter().any(|b| b.origin == sig.input().signer_name.to_lowercase() && world.sc.under_anchor(b.z))
+                    }
+                    _ => false,
+                })
+        });
+        if !d.answers.is_empty() && relevant(&q, &d.answers).is_empty() && !has_signed_nsec {
+            // verify_response returns Ok for a response whose answer section is non-empty but
+            // holds no RRset for the query and that carries no usable denial. For the top-level
+            // response an existing RRset vanishes unnoticed; for a DS sub-query,
+            // fetch_ds_records reads "Ok without DS records" as proof of an insecure delegation.
+            return Some(KA);
+        }
+    }
+    // Root causes in verify_nsec3 (C09's subject, reached here end to end): a *false* denial made
+    // of genuine, validly signed NSEC3 records was delivered for some query of the chain.
+    for ex in run.log.iter().filter(|e| e.tampered > 0) {
+        let d = &ex.delivered;
+        let q = Query::new(ex.qname.clone(), ex.qtype);
+        let nsec3s: Vec<(&Record, &NSEC3)> = d
+            .authorities
+            .iter()
+            .filter_map(|r| match &r.data {
+                RData::DNSSEC(DNSSECRData::NSEC3(n)) => Some((r, n)),
+                _ => None,
+            })
+            .collect();
+        let (dc, hc) = (class_of(&q, d), class_of(&q, &ex.honest));
+        if nsec3s.is_empty() || dc == hc || !matches!(dc, Class::NoData | Class::NxDomain) {
+            continue;
+        }
+        let soa = d.authorities.iter().find(|r| r.record_type() == RecordType::SOA).map(|r| r.name.to_lowercase());
+        let matches_qname = nsec3s.iter().any(|(r, n)| {
+            n.hash_algorithm()
+                .hash(n.salt(), &q.name.to_lowercase(), n.iterations())
+                .ok()
+                .is_some_and(|h| r.name.iter().next().is_some_and(|l| l.eq_ignore_ascii_case(data_encoding::BASE32_DNSSEC.encode(h.as_ref()).as_bytes())))
+        });
+        if dc == Class::NoData && soa == Some(q.name.to_lowercase()) && !matches_qname {
+            // validate_nodata_response: "(None, None, None) if query name == SOA => Secure"
+            return Some(KN1);
+        }
+        let wraparound = nsec3s.iter().any(|(r, n)| {
+            r.name.iter().next().is_some_and(|l| {
+                let owner = l.to_ascii_lowercase();
+                let next = data_encoding::BASE32_DNSSEC.encode(n.next_hashed_owner_name()).into_bytes();
+                owner > next
+            })
+        });
+        if wraparound {
+            // find_covering_record, wrap-around case: the comparisons are inverted, so the last
+            // NSEC3 of the chain "covers" every hash
+            return Some(KN2);
+        }
+    }
+    // RFC 6840 4.4: a DS denial proves an insecure delegation only if the matching NSEC/NSEC3 has
+    // the NS bit (there is a delegation at all). The validator located a "zone cut" from an
+    // unauthenticated NS RRset (or took the owner of a DNSKEY RRset for an apex) and then accepted
+    // the genuine denial of DS at a name that is no delegation.
+    let origins = [Z::Root, Z::Tld, Z::Leaf, Z::Sib].map(|z| name(z.origin()));
+    if run
+        .log
+        .iter()
+        .any(|e| {
+            let q = Query::new(e.qname.clone(), e.qtype);
+            e.qtype == RecordType::DS
+                && !origins.iter().any(|o| *o == e.qname.to_lowercase())
+                // the genuine answer holds no DS (a denial, or a CNAME at that name) and what was
+                // delivered says the same
+                && !e.honest.answers.iter().any(|r| r.record_type() == RecordType::DS)
+                && class_of(&q, &e.delivered) == class_of(&q, &e.honest)
+        })
+    {
+        return Some(KB);
+    }
+    None
+}
+
+fn sig_for(world: &World, base: &str, run: &Run) -> String {
+    tamper_path(world, run).map(str::to_string).unwrap_or_else(|| base.to_string())
+}
+
+/// Is this DNSKEY authenticated *directly*: its public key is a configured trust anchor, or it
+/// is a genuine key for which the parent publishes a supported DS?
+fn directly_authenticated(world: &World, r: &Record) -> bool {
+    let RData::DNSSEC(DNSSECRData::DNSKEY(k)) = &r.data else {
+        return false;
+    };
+    let anchor_zone = world.zone(world.sc.anchor.zone);
+    let owner = r.name.to_lowercase();
+    if owner == anchor_zone.origin.to_lowercase()
+        && anchor_zone.keys.iter().enumerate().any(|(i, a)| world.sc.anchor.mask & (1 << i) != 0 && a.dnskey.public_key() == k.public_key())
+    {
+        return true;
+    }
+    world.zones.iter().any(|b| {
+        let spec = world.sc.spec(b.z).expect("spec");
+        b.origin.to_lowercase() == owner && spec.ds_kind.has_supported() && b.keys.iter().enumerate().any(|(i, a)| spec.ds_mask & (1 << i) != 0 && a.dnskey == *k)
+    })
+}
+
+/// Root cause K2 (verify_dnskey_rrset, "accept the entire set").
+pub const K2: &str = "dnskey-rrset-of-anchor-or-ds-matched-keys-secure-without-valid-rrsig";
+
+fn judge(world: &World, q: &Query, run: &Run, genuine: &HashMap<(String, u16, Vec<u8>), u32>, faulted: bool) -> CaseResult {
+    let Some(secure) = query_status(world, q) else {
+        return Err(Fail::new("harness-query-outside-anchor", format!("{q} is not under the trust anchor")));
+    };
+    let honest_top = run
+        .log
+        .first()
+        .map(|e| &e.honest)
+        .ok_or_else(|| Fail::new("harness-no-upstream-exchange", "the validator never asked upstream"))?;
+    let honest_class = class_of(q, honest_top);
+    let honest_rel = relevant(q, &honest_top.answers);
+
+    let msg = match &run.outcome {
+        Outcome::Panic(f) => return Err(f.clone()),
+        Outcome::Err(e) => {
+            // an error is the safe outcome under faults; without faults it is a completeness failure
+            vensure!(faulted, if secure { "faultfree-secure-chain-rejected" } else { "faultfree-insecure-chain-rejected" }, "no fault, yet {q} failed: {e}");
+            return Ok(());
+        }
+        Outcome::NsecErr(proof, e) => {
+            vensure!(faulted, if secure { "faultfree-secure-denial-rejected" } else { "faultfree-insecure-denial-rejected" }, "no fault, yet {q} failed: {e}");
+            // hickory's server treats Nsec{proof: Insecure} as an insecure negative answer
+            // (catalog.rs build_forwarded_response), so it is not an error outcome
+            vensure!(!(secure && proof.is_insecure()), "secure-denial-downgraded-to-insecure-nsec-error", "{q}: secure chain, outcome {e}");
+            return Ok(());
+        }
+        Outcome::Msg(m) => m,
+    };
+
+    let directly_authenticated = |r: &Record| directly_authenticated(world, r);
+    // Root cause K2: a DNSKEY RRset in which every record is directly authenticated (anchor key
+    // or DS match) is accepted although no RRSIG over it verifies (verify_dnskey_rrset, "accept
+    // the entire set")
+    let all_dnskeys_direct = {
+        let ks: Vec<&Record> = msg.answers.iter().filter(|r| r.record_type() == RecordType::DNSKEY).collect();
+        !ks.is_empty() && ks.iter().all(|r| directly_authenticated(r))
+    };
+
+    // R1: Secure => genuine
+    for (label, v) in [("answer", &msg.answers), ("authority", &msg.authorities), ("additional", &msg.additionals)] {
+        for r in v.iter().filter(|r| r.proof == Proof::Secure) {
+            match genuine.get(&rec_key(r)) {
+                None => vfail!(
+                    if r.record_type() == RecordType::RRSIG {
+                        "secure-proof-on-forged-rrsig"
+                    } else if directly_authenticated(r) && all_dnskeys_direct {
+                        K2
+                    } else {
+                        "secure-proof-on-forged-record"
+                    },
+                    "{q}: {label} record returned Secure is not genuine zone data: {}\n  outcome: {}",
+                    show_rec(r),
+                    show_msg(msg)
+                ),
+                Some(ttl) => vensure!(r.ttl <= *ttl, "secure-record-ttl-above-genuine", "{q}: {} ttl {} > genuine {}", show_rec(r), r.ttl, ttl),
+            }
+        }
+    }
+    // R2: Insecure label only where the model says the zone is insecure
+    for v in [&msg.answers, &msg.authorities] {
+        for r in v.iter().filter(|r| r.proof == Proof::Insecure && r.record_type() != RecordType::RRSIG) {
+            // by owner and type only: for a forged record at a zone cut the child is the lenient
+            // choice (the validator cannot tell either)
+            let z = world.zone_of_record(&r.name, r.record_type());
+            if world.sc.status(z) == Some(true) {
+                if !faulted {
+                    vfail!("faultfree-secure-zone-returned-insecure", "{q}: {} labelled Insecure\n  {}", show_rec(r), show_msg(msg));
+                }
+                vfail!(
+                    sig_for(world, "record-of-secure-zone-returned-insecure", run),
+                    "{q}: {} lies in zone {:?} which has an unbroken chain to the anchor, but is labelled Insecure\n  outcome: {}",
+                    show_rec(r),
+                    z,
+                    show_msg(msg)
+                );
+            }
+        }
+    }
+
+    let class = class_of(q, msg);
+    let rel = relevant(q, &msg.answers);
+    let others = || msg.answers.iter().chain(&msg.authorities).filter(|r| r.record_type() != RecordType::RRSIG);
+    let secure_denial_present = msg
+        .authorities
+        .iter()
+        .any(|r| matches!(r.record_type(), RecordType::NSEC | RecordType::NSEC3) && r.proof == Proof::Secure);
+
+    if !faulted {
+        // R4 completeness
+        vensure!(class == honest_class, "faultfree-class-changed", "{q}: genuine answer is {honest_class:?}, validator returned {class:?}\n  {}", show_msg(msg));
+        let want = if secure { Proof::Secure } else { Proof::Insecure };
+        let wrong: Vec<&Record> = others().filter(|r| r.proof != want).collect();
+        vensure!(
+            wrong.is_empty(),
+            if secure { "faultfree-secure-data-not-secure" } else { "faultfree-insecure-data-not-insecure" },
+            "{q}: model status {}, outcome:\n  {}",
+            if secure { "Secure" } else { "Insecure" },
+            show_msg(msg)
+        );
+        vensure!(key_set(&rel) == key_set(&honest_rel), "faultfree-answer-differs", "{q}: answers differ from the zone's\n  {}", show_msg(msg));
+        if secure && class != Class::Positive {
+            vensure!(secure_denial_present, "faultfree-secure-negative-without-proof", "{q}: no Secure NSEC/NSEC3\n  {}", show_msg(msg));
+        }
+        return Ok(());
+    }
+
+    if !secure {
+        // an insecure chain gives an attacker free rein over the data; only R1/R2 apply
+        return Ok(());
+    }
+
+    // R3: secure chain under faults. Error-like outcomes first.
+    if class == Class::Failure {
+        return Ok(());
+    }
+    match class {
+        Class::Positive => {
+            if rel.iter().any(|r| r.proof == Proof::Bogus) {
+                return Ok(());
+            }
+            // R2 already excluded Insecure
+            if rel.iter().any(|r| r.proof != Proof::Secure) {
+                vfail!("secure-chain-unvalidated-answer-returned", "{q}: secure chain, answer carries no verdict\n  {}", show_msg(msg));
+            }
+            if honest_class != Class::Positive {
+                vfail!("secure-answer-for-nonexistent-data", "{q}: genuine answer is {honest_class:?}\n  {}", show_msg(msg));
+            }
+            if !rrsets_genuine(&rel, &honest_rel) {
+                vfail!(
+                    if q.query_type == RecordType::DNSKEY && all_dnskeys_direct { K2 } else { "secure-answer-differs-from-genuine" },
+                    "{q}: Secure answer RRset differs from the zone's\n  {}",
+                    show_msg(msg)
+                );
+            }
+        }
+        Class::NoData | Class::NxDomain => {
+            // hickory's server summarises a negative answer over the authority section
+            // (Bogus anywhere => SERVFAIL)
+            if msg.answers.iter().chain(&msg.authorities).any(|r| r.proof == Proof::Bogus) {
+                return Ok(());
+            }
+            if honest_class == Class::Positive {
+                vfail!(
+                    sig_for(world, if secure_denial_present { "denial-of-existing-data-accepted-with-secure-nsec" } else { "denial-of-existing-data-accepted-without-proof" }, run),
+                    "{q}: the RRset exists, outcome is {class:?} and not an error\n  {}",
+                    show_msg(msg)
+                );
+            }
+            vensure!(
+                secure_denial_present,
+                sig_for(world, "secure-chain-denial-accepted-without-proof", run),
+                "{q}: secure chain, {class:?} accepted without any Secure NSEC/NSEC3\n  {}",
+                show_msg(msg)
+            );
+            vensure!(class == honest_class, sig_for(world, "secure-denial-kind-changed", run), "{q}: genuine {honest_class:?}, outcome {class:?}\n  {}", show_msg(msg));
+        }
+        Class::Failure => {}
+    }
+    Ok(())
+}
+
+// ---------------------------------------------------------------------------------------------
+// cases
+
+#[derive(Clone, Debug, Serialize, Deserialize)]
+pub struct SingleCase {
+    pub sc: Scenario,
+    /// None = the fault-free run of the scenario
+    pub fault: Option<Fault>,
+    /// further faults (hand-written regression files only; the enumerator leaves it empty).
+    /// They may address queries that do not occur in the fault-free trace.
+    #[serde(default, skip_serializing_if = "Vec::is_empty")]
+    pub also: Vec<Fault>,
+}
+
+#[derive(Clone, Debug, Serialize, Deserialize)]
+pub struct DoubleCase {
+    pub sc: Scenario,
+    /// indices into the pools below (modulo their length)
+    pub a: u32,
+    pub b: u32,
+    /// 0 = both uniformly from all single faults; 1 = both from the attacker-constructive
+    /// operators; 2 = forged chain link: `a` forges data in the top-level response, `b` forges
+    /// the DNSKEY / DS RRset (or the zone-cut probe) that would have to vouch for it;
+    /// 3 = follow-up: `a` from the constructive single faults, `b` from the faults on the
+    /// responses to queries that the validator sends only because of `a`
+    pub mode: u8,
+}
+
+/// a fault ready to be armed, with what the evidence needs to know about it
+struct Planned {
+    armed: Armed,
+    kind: Kind,
+    /// NT rule: lands on something the validator consumes
+    consumed: bool,
+    /// hits a response to a query that only an earlier fault provoked
+    follow_up: bool,
+    desc: String,
+}
+
+/// `top_is_first`: log[0] is the exchange for the user's query
+fn plan(log: &[Exchange], top_is_first: bool, f: &Fault) -> Option<Planned> {
+    let resp = log.iter().position(|ex| f.hits(ex))?;
+    let ex = &log[resp];
+    let kind = if top_is_first { kind_of(resp, ex) } else { kind_of(resp.max(1), ex) };
+    let target = section_ref(&ex.honest, f.sec).get(f.idx as usize);
+    let consumed = f.op.response_level() || target.is_some_and(|r| consumed(kind, ex, f.sec, r));
+    let desc = format!(
+        "fault on response to <{} {}>: {:?} {:?}[{}]{}",
+        ex.qname,
+        ex.qtype,
+        f.op,
+        f.sec,
+        f.idx,
+        if f.op.response_level() { String::new() } else { target.map(|r| format!(" = {} {}", r.name, rrset_key(r).1)).unwrap_or_default() }
+    );
+    Some(Planned { armed: Armed { qname: ex.qname.clone(), qtype: ex.qtype, fault: f.clone() }, kind, consumed, follow_up: !top_is_first, desc })
+}
+
+/// a fault on a response of the fault-free trace; or, for hand-written cases, on the response
+/// to a query that only occurs under faults
+fn plan_base(p: &Prepared, f: &Fault) -> Option<Planned> {
+    if let Some(pl) = plan(&p.base_log, true, f) {
+        return Some(pl);
+    }
+    let qname = Name::from_ascii(&f.qname).ok()?;
+    let qtype = RecordType::from_str(&f.qtype).ok()?;
+    let kind = if matches!(qtype, RecordType::DNSKEY | RecordType::DS) { Kind::Chain } else { Kind::Probe };
+    Some(Planned {
+        armed: Armed { qname: qname.clone(), qtype, fault: f.clone() },
+        kind,
+        consumed: true,
+        follow_up: true,
+        desc: format!("fault on response to <{qname} {qtype}> (asked only under faults): {:?} {:?}[{}]", f.op, f.sec, f.idx),
+    })
+}
+
+fn describe(p: &Prepared, planned: &[Planned]) -> String {
+    let mut s = format!("{} | query {} {}", p.world.sc.shape(), p.query.name, p.query.query_type);
+    for f in planned {
+        s.push_str(" | ");
+        s.push_str(&f.desc);
+    }
+    s
+}
+
+fn op_label(op: &Op) -> &'static str {
+    match op {
+        Op::FlipBit { .. } => "flip-rdata-bit",
+        Op::DropRecord => "drop-record",
+        Op::DropRrsigs => "drop-rrsigs",
+        Op::DropRrset => "drop-rrset",
+        Op::CorruptSig => "corrupt-signature",
+        Op::Replace { sig: Sig::Keep } => "replace-keep-sig",
+        Op::Replace { sig: Sig::None } => "replace-unsigned",
+        Op::Replace { sig: Sig::Attacker } => "replace-attacker-signed",
+        Op::AddRecord => "add-record",
+        Op::SwapDs => "swap-ds",
+        Op::Inject { signed: false, .. } => "inject-unsigned",
+        Op::Inject { signed: true, .. } => "inject-attacker-signed",
+        Op::DropNsec => "drop-nsec",
+        Op::Rcode { .. } => "change-rcode",
+        Op::StripDnssec => "strip-dnssec",
+        Op::Empty => "empty-response",
+        Op::Replay { .. } => "replay-other-genuine-response",
+    }
+}
+
+fn classify_scenario(p: &Prepared, rec: &mut Rec) {
+    let sc = &p.world.sc;
+    let secure = query_status(&p.world, &p.query) == Some(true);
+    rec.class(if secure { "status/secure" } else { "status/insecure" });
+    rec.class(format!("anchor/{:?}", sc.anchor.zone));
+    rec.class(if sc.err_style { "upstream/negative-as-error" } else { "upstream/always-ok" });
+    if let Some(top) = p.base_log.first() {
+        rec.class(format!("answer/{:?}", class_of(&p.query, &top.honest)));
+    }
+    rec.class(format!("qtype/{}", p.query.query_type));
+    let island = |z: Z| sc.spec(z).is_some_and(|s| s.signed && !s.has_ds()) && z != sc.anchor.zone;
+    if [Z::Tld, Z::Leaf, Z::Sib].into_iter().any(island) {
+        rec.class("shape/signed-island-without-ds");
+    }
+    if [Z::Tld, Z::Leaf, Z::Sib].into_iter().any(|z| sc.spec(z).is_some_and(|s| !s.signed) && z.parent().and_then(|p| sc.spec(p)).is_some_and(|p| p.signed)) {
+        rec.class("shape/unsigned-under-signed");
+    }
+    if [Z::Tld, Z::Leaf, Z::Sib].into_iter().any(|z| sc.spec(z).is_some_and(|s| !s.signed) && z.parent().and_then(|p| sc.spec(p)).is_some_and(|p| !p.signed)) {
+        rec.class("shape/unsigned-under-unsigned");
+    }
+    for z in [Z::Root, Z::Tld, Z::Leaf, Z::Sib] {
+        if let Some(s) = sc.spec(z) {
+            if s.signed {
+                rec.class(format!("keys/{}", s.nkeys));
+                rec.class(match s.nx {
+                    Nx::Nsec => "nx/nsec",
+                    Nx::Nsec3 { .. } => "nx/nsec3",
+                });
+                if s.collide {
+                    rec.class("keys/tag-collision");
+                }
+                if s.has_ds() {
+                    rec.class(format!("ds/{:?}", s.ds_kind));
+                    if s.ds_mask.count_ones() < s.nkeys as u32 {
+                        rec.class("ds/subset-of-keys");
+                    }
+                }
+            }
+        }
+    }
+}
+
+
+fn run_case(sc: &Scenario, pick: impl FnOnce(&Prepared) -> Result<Vec<Planned>, String>, rec: &mut Rec) -> CaseResult {
+    let _clock = clock::VirtualClock::start(BASE);
+    let p = prepare(sc);
+    let planned = match pick(&p) {
+        Ok(f) => f,
+        Err(why) => {
+            rec.discard(why);
+            return Ok(());
+        }
+    };
+    if planned.is_empty() {
+        classify_scenario(&p, rec);
+        rec.class("faults/none");
+        rec.nontrivial();
+        rec.note(describe(&p, &[]));
+        return p.base_ok.clone();
+    }
+    // a scenario whose fault-free run is off (known finding or not) says nothing under faults
+    if let Err(f) = &p.base_ok {
+        rec.discard(format!("fault-free-run-failed:{}", f.sig));
+        return Ok(());
+    }
+    let run = run_validation(&p.world, planned.iter().map(|f| f.armed.clone()).collect(), &p.query);
+    if let Some(why) = run.inapplicable {
+        rec.discard(format!("fault-inapplicable:{why}"));
+        return Ok(());
+    }
+    if run.log.iter().all(|e| e.tampered == 0) {
+        rec.discard("fault-never-delivered");
+        return Ok(());
+    }
+    {
+        // every honestly served response is genuine data by construction
+        let mut g = p.genuine.borrow_mut();
+        for ex in &run.log {
+            learn_genuine(&mut g, &ex.honest);
+        }
+    }
+    let secure = query_status(&p.world, &p.query) == Some(true);
+    rec.class(if secure { "status/secure" } else { "status/insecure" });
+    let mut nt = false;
+    for f in &planned {
+        rec.class(format!("op/{}", op_label(&f.armed.fault.op)));
+        rec.class(match f.kind {
+            Kind::Top => "target/top-level-response",
+            Kind::Chain if f.armed.qtype == RecordType::DS => "target/ds-response",
+            Kind::Chain => "target/dnskey-response",
+            Kind::Probe => "target/ns-probe-response",
+        });
+        nt |= f.consumed;
+        if f.follow_up {
+            rec.class("pair/follow-up-realised");
+        }
+    }
+    rec.class(match &run.outcome {
+        Outcome::Err(_) | Outcome::NsecErr(..) => "outcome/error",
+        Outcome::Panic(_) => "outcome/panic",
+        Outcome::Msg(m) => {
+            let data: Vec<&Record> = m.answers.iter().chain(&m.authorities).filter(|r| r.record_type() != RecordType::RRSIG).collect();
+            if data.iter().any(|r| r.proof == Proof::Bogus) {
+                "outcome/bogus"
+            } else if !data.is_empty() && data.iter().all(|r| r.proof == Proof::Secure) {
+                "outcome/secure-genuine"
+            } else if data.iter().any(|r| r.proof == Proof::Insecure) {
+                "outcome/insecure"
+            } else {
+                "outcome/other"
+            }
+        }
+    });
+    if nt {
+        rec.nontrivial();
+        rec.note(describe(&p, &planned));
+    }
+    let g = p.genuine.borrow();
+    judge(&p.world, &p.query, &run, &g, true).map_err(|mut f| {
+        f.msg = format!("{}\n  case: {}", f.msg, describe(&p, &planned));
+        f
+    })
+}
+
+fn scenarios(seed: u64, n: usize) -> Vec<Scenario> {
+    let mut s = [0u8; 32];
+    for i in 0..4u64 {
+        s[(i as usize) * 8..(i as usize) * 8 + 8].copy_from_slice(&fixed_hash(&[b"c07-scenarios", &seed.to_le_bytes(), &i.to_le_bytes()]).to_le_bytes());
+    }
+    let mut runner = TestRunner::new_with_rng(Config::default(), TestRng::from_seed(RngAlgorithm::ChaCha, &s));
+    let strat = hier::scenario();
+    (0..n).map(|_| strat.new_tree(&mut runner).expect("scenario").current()).collect()
+}
+
+fn constructive(f: &Fault) -> bool {
+    matches!(
+        f.op,
+        Op::Replace { .. } | Op::Inject { .. } | Op::DropRrset | Op::DropRrsigs | Op::SwapDs | Op::AddRecord | Op::Empty | Op::StripDnssec | Op::DropNsec | Op::Replay { .. }
+    )
+}
+
+fn pick_double(c: &DoubleCase, p: &Prepared) -> Result<Vec<Planned>, String> {
+    if p.faults.len() < 2 {
+        return Err("fewer-than-two-faults".into());
+    }
+    let target_type = |f: &Fault| {
+        let resp = p.base_log.iter().position(|ex| f.hits(ex)).unwrap_or(0);
+        let ex = &p.base_log[resp];
+        (kind_of(resp, ex), ex.qtype, section_ref(&ex.honest, f.sec).get(f.idx as usize).map(|r| rrset_key(r).1))
+    };
+    let follow_up = || -> Result<Option<Vec<Planned>>, String> {
+        // follow-up: b hits a response the validator asks for only because of a
+        // faults that leave unsigned or foreign-signed data behind make the validator look for
+        // zone cuts, DS RRsets and other keys
+        let pool_a: Vec<&Fault> = p
+            .faults
+            .iter()
+            .filter(|f| {
+                let (kind, qt, rt) = target_type(f);
+                match kind {
+                    // unsigned data in the top-level response: zone-cut probes and DS look-ups
+                    Kind::Top => f.sec != Sec::Ar && matches!(f.op, Op::Replace { sig: Sig::None } | Op::Inject { signed: false, .. } | Op::DropRrsigs | Op::StripDnssec),
+                    // a foreign key in a DNSKEY RRset, unsigned DS / DNSKEY RRsets
+                    Kind::Chain => {
+                        (qt == RecordType::DNSKEY && rt == Some(RecordType::DNSKEY) && matches!(f.op, Op::AddRecord | Op::Replace { .. } | Op::DropRrsigs))
+                            || (qt == RecordType::DNSKEY && matches!(f.op, Op::Inject { own: true, ns: false, .. } | Op::StripDnssec))
+                            || (qt == RecordType::DS && matches!(f.op, Op::DropRrsigs | Op::StripDnssec | Op::Replace { sig: Sig::None }))
+                    }
+                    Kind::Probe => false,
+                }
+            })
+            .collect();
+        if pool_a.is_empty() {
+            return Ok(None);
+        }
+        let a = pool_a[c.a as usize % pool_a.len()];
+        let pa = plan_base(p, a).ok_or("fault-response-index-out-of-trace")?;
+        if p.base_ok.is_err() {
+            return Err("fault-free-run-failed".into());
+        }
+        let run_a = run_validation(&p.world, vec![pa.armed.clone()], &p.query);
+        let base_keys: BTreeSet<(String, u16)> = p.base_log.iter().map(|e| (e.qname.to_lowercase().to_ascii(), u16::from(e.qtype))).collect();
+        let new_idx: Vec<usize> = first_occurrences(&run_a.log, true)
+            .into_iter()
+            .filter(|i| !base_keys.contains(&(run_a.log[*i].qname.to_lowercase().to_ascii(), u16::from(run_a.log[*i].qtype))))
+            .collect();
+        if new_idx.is_empty() {
+            return Ok(None);
+        }
+        // faults on the new exchanges only
+        let sub_log: Vec<Exchange> = new_idx.iter().map(|i| run_a.log[*i].clone()).collect();
+        let follow = enumerate_faults(&p.world, &sub_log, false);
+        let pool_b: Vec<&Fault> = follow.iter().filter(|f| constructive(f)).collect();
+        if pool_b.is_empty() {
+            return Ok(None);
+        }
+        let b = pool_b[c.b as usize % pool_b.len()];
+        let pb = plan(&sub_log, false, b).ok_or("fault-response-index-out-of-trace")?;
+        Ok(Some(vec![pa, pb]))
+    };
+    if c.mode == 3 {
+        // when the first fault provokes no new query, fall back to a constructive pair
+        if let Some(v) = follow_up()? {
+            return Ok(v);
+        }
+    }
+    let (pool_a, pool_b): (Vec<&Fault>, Vec<&Fault>) = match c.mode {
+        0 => (p.faults.iter().collect(), p.faults.iter().collect()),
+        1 | 3 => (p.faults.iter().filter(|f| constructive(f)).collect(), p.faults.iter().filter(|f| constructive(f)).collect()),
+        _ => (
+            p.faults
+                .iter()
+                .filter(|f| {
+                    target_type(f).0 == Kind::Top
+                        && matches!(f.op, Op::Replace { sig: Sig::Attacker } | Op::Inject { signed: true, .. } | Op::Replace { sig: Sig::None } | Op::Inject { signed: false, .. })
+                })
+                .collect(),
+            p.faults
+                .iter()
+                .filter(|f| {
+                    let (kind, qt, rt) = target_type(f);
+                    kind != Kind::Top
+                        && ((qt == RecordType::DNSKEY && rt == Some(RecordType::DNSKEY) && matches!(f.op, Op::Replace { .. } | Op::AddRecord))
+                            || (qt == RecordType::DS && rt == Some(RecordType::DS) && matches!(f.op, Op::Replace { .. } | Op::SwapDs | Op::AddRecord | Op::DropRrset))
+                            || (qt == RecordType::DS && matches!(f.op, Op::Empty | Op::Replay { .. } | Op::DropNsec | Op::StripDnssec))
+                            || (kind == Kind::Probe && matches!(f.op, Op::Inject { ns: true, .. })))
+                })
+                .collect(),
+        ),
+    };
+    if pool_a.is_empty() || pool_b.is_empty() {
+        return Err("fewer-than-two-faults".into());
+    }
+    let a = pool_a[c.a as usize % pool_a.len()].clone();
+    let b = pool_b[c.b as usize % pool_b.len()].clone();
+    if a == b {
+        return Err("same-fault-twice".into());
+    }
+    if a.same_response(&b) && !(a.op.response_level() || b.op.response_level()) && a.sec == b.sec {
+        // two record-level edits of one section: indices of the second would shift
+        return Err("overlapping-record-edits".into());
+    }
+    // response-level operators after record-level ones, so that indices stay valid
+    let mut v = vec![a, b];
+    v.sort_by_key(|f| f.op.response_level());
+    v.iter().map(|f| plan_base(p, f).ok_or_else(|| "fault-response-index-out-of-trace".to_string())).collect()
+}
+
+// ---------------------------------------------------------------------------------------------
+// clause (d): the same through hickory's server. A small `ZoneHandler` of type External with
+// `can_validate_dnssec() == true` sits under a real `Catalog`; it resolves through the real
+// `DnssecDnsHandle` over the scripted upstream and hands the result over exactly as
+// `ValidatingRecursor::resolve` does (resolver/src/recursor/mod.rs: NXDOMAIN and NODATA in error
+// form, everything else as `AuthLookup::Response`). What is under test here is
+// `build_forwarded_response` (catalog.rs): Secure => AD, Bogus and CD=0 => SERVFAIL without data.
+
+struct ValidatingAdapter {
+    origin: LowerName,
+    handle: DnssecDnsHandle<Upstream>,
+    /// what the validating handle returned for the client's query
+    seen: Mutex<Option<HandleSaw>>,
+}
+
+#[derive(Clone, Copy, Debug, Default)]
+struct HandleSaw {
+    ok: bool,
+    /// a record that answers the query is marked Bogus
+    bogus_relevant: bool,
+    positive: bool,
+}
+
+#[async_trait::async_trait]
+impl ZoneHandler for ValidatingAdapter {
+    fn zone_type(&self) -> ZoneType {
+        ZoneType::External
+    }
+    fn axfr_policy(&self) -> AxfrPolicy {
+        AxfrPolicy::Deny
+    }
+    fn can_validate_dnssec(&self) -> bool {
+        true
+    }
+    fn origin(&self) -> &LowerName {
+        &self.origin
+    }
+    async fn lookup(&self, name: &LowerName, rtype: RecordType, _request_info: Option<&RequestInfo<'_>>, lookup_options: LookupOptions) -> LookupControlFlow<AuthLookup> {
+        use hickory_resolver::recursor::RecursorError;
+        let query = Query::new(name.into(), rtype);
+        let mut options = DnsRequestOptions::default();
+        options.use_edns = true;
+        options.edns_set_dnssec_ok = true;
+        let result = self.handle.lookup(query.clone(), options).first_answer().await;
+        let response = match result {
+            Ok(r) => r,
+            Err(e) => {
+                *self.seen.lock().unwrap() = Some(HandleSaw::default());
+                return LookupControlFlow::Continue(Err(LookupError::from(RecursorError::from(e))));
+            }
+        };
+        *self.seen.lock().unwrap() = Some(HandleSaw {
+            ok: true,
+            bogus_relevant: relevant(&query, &response.answers).iter().any(|r| r.proof == Proof::Bogus),
+            positive: !response.answers.is_empty(),
+        });
+        // from here on: ValidatingRecursor::resolve, line by line
+        if response.response_code == ResponseCode::NXDomain {
+            let Err(dns_error) = DnsError::from_response(response) else {
+                return LookupControlFlow::Continue(Err(LookupError::from(RecursorError::from("unable to build ProtoError from response {response:?}"))));
+            };
+            LookupControlFlow::Continue(Err(LookupError::from(RecursorError::Net(NetError::from(dns_error)))))
+        } else if response.answers.is_empty() && !response.authorities.is_empty() && response.response_code == ResponseCode::NoError {
+            let mut no_records = hickory_net::NoRecords::new(query.clone(), ResponseCode::NoError);
+            no_records.soa = response.soa().as_ref().map(|record| Box::new(record.to_owned()));
+            no_records.authorities = Some(
+                response
+                    .authorities
+                    .iter()
+                    .filter_map(|x| match x.record_type() {
+                        RecordType::SOA => None,
+                        _ => Some(x.clone()),
+                    })
+                    .collect(),
+            );
+            LookupControlFlow::Continue(Err(LookupError::from(RecursorError::from(NetError::from(no_records)))))
+        } else {
+            let message = response.into_message();
+            LookupControlFlow::Continue(Ok(AuthLookup::Response(message.maybe_strip_dnssec_records(lookup_options.dnssec_ok))))
+        }
+    }
+    async fn nsec_records(&self, _name: &LowerName, _lookup_options: LookupOptions) -> LookupControlFlow<AuthLookup> {
+        LookupControlFlow::Continue(Err(LookupError::from(std::io::Error::other("unimplemented"))))
+    }
+    async fn nsec3_records(&self, _info: Nsec3QueryInfo<'_>, _lookup_options: LookupOptions) -> LookupControlFlow<AuthLookup> {
+        LookupControlFlow::Continue(Err(LookupError::from(std::io::Error::other("unimplemented"))))
+    }
+    fn nx_proof_kind(&self) -> Option<&NxProofKind> {
+        None
+    }
+    fn metrics_label(&self) -> &'static str {
+        "c07-validating-adapter"
+    }
+}
+
+#[derive(Clone, Debug, Serialize, Deserialize)]
+pub struct ServerCase {
+    pub sc: Scenario,
+    /// index into the scenario's single-fault list (modulo its length); None = no fault
+    pub fault: Option<u32>,
+    /// the client's CD bit
+    pub cd: bool,
+}
+
+struct ServerRun {
+    response: Message,
+    saw: Option<HandleSaw>,
+    run: Run,
+}
+
+fn run_server(world: &Arc<World>, armed: Vec<Armed>, q: &Query, cd: bool) -> Result<ServerRun, Fail> {
+    clock::set_virtual_nanos(QUERY_AFTER * 1_000_000_000);
+    let up = Upstream(Arc::new(UpInner { world: world.clone(), armed, log: Mutex::new(vec![]), inapplicable: Mutex::new(None) }));
+    let mut anchors = TrustAnchors::empty();
+    let az = world.zone(world.sc.anchor.zone);
+    for (i, k) in az.keys.iter().enumerate() {
+        if world.sc.anchor.mask & (1 << i) != 0 {
+            anchors.insert(&k.pk);
+        }
+    }
+    let adapter = Arc::new(ValidatingAdapter {
+        origin: LowerName::new(&Name::root()),
+        handle: DnssecDnsHandle::with_trust_anchor(up.clone(), Arc::new(anchors)),
+        seen: Mutex::new(None),
+    });
+    let mut catalog = Catalog::new();
+    let handler: Arc<dyn ZoneHandler> = adapter.clone();
+    catalog.upsert(LowerName::new(&Name::root()), vec![handler]);
+    let mut m = Message::query();
+    m.add_query(q.clone());
+    m.metadata.recursion_desired = true;
+    m.metadata.checking_disabled = cd;
+    m.metadata.id = 0x4242;
+    let mut edns = Edns::new();
+    edns.set_max_payload(4096).set_dnssec_ok(true);
+    m.set_edns(edns);
+    let req = Request::from_bytes(m.to_vec().expect("encode"), SocketAddr::from(([127, 0, 0, 1], 5301)), Protocol::Tcp).expect("request");
+    let cap = Capture(Arc::new(Mutex::new(None)));
+    let res = crate::core::catch(|| futures_executor::block_on(catalog.handle_request::<_, SimTime>(&req, cap.clone())));
+    let log = std::mem::take(&mut *up.0.log.lock().unwrap_or_else(|e| e.into_inner()));
+    let inapplicable = *up.0.inapplicable.lock().unwrap_or_else(|e| e.into_inner());
+    clock::set_virtual_nanos(0);
+    if let Err(p) = res {
+        // the validator panics are recorded by the handle-level subs; here only the precondition
+        let run = Run { outcome: Outcome::Panic(crate::core::panic_fail(&p)), log, inapplicable };
+        let mut f = crate::core::panic_fail(&p);
+        let dnskey_sig_without_key = run.log.iter().filter(|e| e.tampered > 0).any(|e| {
+            let d = &e.delivered;
+            d.answers.iter().any(|r| rrset_key(r) == (r.name.to_lowercase(), RecordType::DNSKEY, true)) && !d.answers.iter().any(|r| r.record_type() == RecordType::DNSKEY)
+        });
+        if dnskey_sig_without_key && p.0.contains("Option::unwrap()") && p.1.contains("dnssec/mod.rs") {
+            f.sig = "panic-verify-dnskey-rrset-rrsig-without-dnskey-records".into();
+        }
+        return Err(f);
+    }
+    let buf = cap.0.lock().unwrap().take().ok_or_else(|| Fail::new("server-sent-no-response", "catalog produced no response"))?;
+    let response = Message::from_vec(&buf).map_err(|e| Fail::new("server-response-undecodable", e.to_string()))?;
+    let saw = *adapter.seen.lock().unwrap();
+    if std::env::var_os("C07_TRACE").is_some() {
+        eprintln!("---- server handling of {q} CD={cd}");
+        for (i, ex) in log.iter().enumerate() {
+            eprintln!("  [{i}] upstream <{} {}> served by zone {}{}", ex.qname, ex.qtype, ex.zone, if ex.tampered > 0 { "  ** TAMPERED **" } else { "" });
+            eprintln!("      {}", show_msg(&ex.delivered).replace('\n', "\n  "));
+        }
+        eprintln!("  handle saw: {saw:?}");
+        eprintln!("  => server response AD={} {}", response.metadata.authentic_data, show_msg(&response));
+    }
+    Ok(ServerRun { response, saw, run: Run { outcome: Outcome::Err("n/a".into()), log, inapplicable } })
+}
+
+fn server_case(c: &ServerCase, rec: &mut Rec) -> CaseResult {
+    let _clock = clock::VirtualClock::start(BASE);
+    let p = prepare(&c.sc);
+    if let Err(f) = &p.base_ok {
+        rec.discard(format!("fault-free-run-failed:{}", f.sig));
+        return Ok(());
+    }
+    let planned: Vec<Planned> = match c.fault {
+        None => vec![],
+        Some(i) => {
+            if p.faults.is_empty() {
+                rec.discard("no-faults");
+                return Ok(());
+            }
+            vec![plan_base(&p, &p.faults[i as usize % p.faults.len()]).ok_or_else(|| Fail::new("harness-bad-fault-index", "index"))?]
+        }
+    };
+    let faulted = !planned.is_empty();
+    let world = &p.world;
+    let q = &p.query;
+    if q.query_type == RecordType::SOA && p.base_log.first().is_some_and(|e| class_of(q, &e.honest) != Class::Positive) {
+        // ValidatingRecursor::resolve (copied into the adapter) turns a *negative* answer to an
+        // SOA query into an error: DnsError::from_response counts the authority SOA as an answer.
+        // A completeness matter of the recursor, outside C07.
+        rec.discard("negative-answer-to-soa-query-is-an-error-in-the-recursor");
+        return Ok(());
+    }
+    let sr = run_server(world, planned.iter().map(|f| f.armed.clone()).collect(), q, c.cd)?;
+    if let Some(why) = sr.run.inapplicable {
+        rec.discard(format!("fault-inapplicable:{why}"));
+        return Ok(());
+    }
+    if faulted && sr.run.log.iter().all(|e| e.tampered == 0) {
+        rec.discard("fault-never-delivered");
+        return Ok(());
+    }
+    let secure = query_status(world, q) == Some(true);
+    let resp = &sr.response;
+    let honest_top = sr.run.log.first().map(|e| &e.honest).ok_or_else(|| Fail::new("harness-no-upstream-exchange", "no upstream exchange"))?;
+    let (class, honest_class) = (class_of(q, resp), class_of(q, honest_top));
+    let (rel, honest_rel) = (relevant(q, &resp.answers), relevant(q, &honest_top.answers));
+    let ad = resp.metadata.authentic_data;
+    let rcode = resp.metadata.response_code;
+    let genuine_outcome = class == honest_class && rrsets_genuine(&rel, &honest_rel);
+    rec.class(if secure { "status/secure" } else { "status/insecure" });
+    rec.class(if c.cd { "client/cd=1" } else { "client/cd=0" });
+    rec.class(if faulted { "faults/one" } else { "faults/none" });
+    rec.class(format!("rcode/{rcode}"));
+    rec.class(if ad { "ad/1" } else { "ad/0" });
+    for f in &planned {
+        rec.class(format!("op/{}", op_label(&f.armed.fault.op)));
+    }
+    if !faulted || planned.iter().any(|f| f.consumed) {
+        rec.nontrivial();
+        rec.note(format!("{} | CD={} -> rcode={rcode} AD={}", describe(&p, &planned), c.cd as u8, ad as u8));
+    }
+    let ctx = || format!("{} | CD={}\n  server response: {}", describe(&p, &planned), c.cd as u8, show_msg(resp));
+
+    // AD => the chain is unbroken and the data are the zone's  (RFC 4035 3.2.3)
+    if ad {
+        vensure!(secure, sig_for(world, "ad-set-on-insecure-chain", &sr.run), "AD=1 for {q} whose chain is not Secure\n  {}", ctx());
+        vensure!(genuine_outcome, sig_for(world, "ad-set-on-non-genuine-answer", &sr.run), "AD=1 for {q}, but the answer is not the zone's\n  {}", ctx());
+    }
+    if !faulted {
+        vensure!(genuine_outcome, "faultfree-server-answer-differs", "{q}: no fault, answer differs\n  {}", ctx());
+        if !secure {
+            vensure!(!ad, "faultfree-ad-on-insecure", "{q}\n  {}", ctx());
+        } else {
+            // hickory summarises over all records of the section including the RRSIGs it did not
+            // use, so AD needs single-key zones; classify, do not insist
+            rec.class(if ad { "faultfree-secure/ad" } else { "faultfree-secure/no-ad" });
+            let single_key = [Z::Root, Z::Tld, Z::Leaf, Z::Sib].iter().all(|z| world.sc.spec(*z).is_none_or(|s| !s.signed || s.nkeys == 1));
+            if single_key {
+                vensure!(ad, "faultfree-secure-single-key-without-ad", "{q}: Secure chain, one key per zone, yet AD=0\n  {}", ctx());
+            }
+        }
+        return Ok(());
+    }
+    // Bogus and CD=0 => SERVFAIL without data (RFC 4035 3.2.2 / 5.5)
+    if let Some(saw) = sr.saw {
+        if saw.ok && saw.positive && saw.bogus_relevant && !c.cd {
+            vensure!(
+                rcode == ResponseCode::ServFail && resp.answers.is_empty(),
+                sig_for(world, "bogus-outcome-not-mapped-to-servfail", &sr.run),
+                "{q}: the validator marked the outcome Bogus, CD=0, but the client got rcode={rcode} with {} answers\n  {}",
+                resp.answers.len(),
+                ctx()
+            );
+        }
+    }
+    if secure && !c.cd && matches!(rcode, ResponseCode::NoError | ResponseCode::NXDomain) {
+        // whatever reaches a CD=0 client from a Secure chain without SERVFAIL is the zone's data
+        let dnskeys: Vec<&&Record> = rel.iter().filter(|r| r.record_type() == RecordType::DNSKEY).collect();
+        let k2 = q.query_type == RecordType::DNSKEY && !dnskeys.is_empty() && dnskeys.iter().all(|r| directly_authenticated(world, r));
+        vensure!(
+            class == honest_class && rrsets_genuine(&rel, &honest_rel),
+            if k2 { K2.to_string() } else { sig_for(world, "client-got-non-genuine-answer-without-servfail", &sr.run) },
+            "{q}: secure chain, CD=0, rcode={rcode}: genuine {honest_class:?}, client sees {class:?}\n  {}",
+            ctx()
+        );
+    }
+    Ok(())
+}
 
 pub fn check() -> Option<Check> {
-    None
+    let single = enumerate(
+        "single_faults",
+        |env: &Env| {
+            let n = env.cases(150, 4000) as usize;
+            let scs = scenarios(env.seed, n);
+            let it = scs.into_iter().flat_map(|sc| {
+                let faults = {
+                    let _clock = clock::VirtualClock::start(BASE);
+                    let p = prepare(&sc);
+                    if p.base_ok.is_ok() {
+                        p.faults.clone()
+                    } else {
+                        vec![]
+                    }
+                };
+                let sc2 = sc.clone();
+                std::iter::once(SingleCase { sc: sc.clone(), fault: None, also: vec![] })
+                    .chain(faults.into_iter().map(move |f| SingleCase { sc: sc2.clone(), fault: Some(f), also: vec![] }))
+            });
+            (Box::new(it) as Box<dyn Iterator<Item = SingleCase> + Send>, false)
+        },
+        |c: &SingleCase, rec: &mut Rec| {
+            run_case(
+                &c.sc,
+                |p| {
+                    let mut v = vec![];
+                    if let Some(f) = &c.fault {
+                        v.push(plan_base(p, f).ok_or("fault-response-index-out-of-trace")?);
+                    }
+                    for e in &c.also {
+                        v.push(plan_base(p, e).ok_or("fault-unparsable")?);
+                    }
+                    Ok(v)
+                },
+                rec,
+            )
+        },
+    );
+
+    let double = prop(
+        "double_faults",
+        10_000,
+        300_000,
+        |_t: Tier| {
+            (hier::scenario(), any::<u32>(), any::<u32>(), prop_oneof![2 => Just(0u8), 3 => Just(1u8), 3 => Just(2u8), 3 => Just(3u8)])
+                .prop_map(|(sc, a, b, mode)| DoubleCase { sc, a, b, mode })
+        },
+        |c: &DoubleCase, rec: &mut Rec| {
+            rec.class(match c.mode {
+                0 => "pair/uniform",
+                1 => "pair/constructive",
+                2 => "pair/forged-chain-link",
+                _ => "pair/follow-up",
+            });
+            run_case(&c.sc, |p| pick_double(c, p), rec)
+        },
+    );
+
+    let server = prop(
+        "server_ad_servfail",
+        3_000,
+        100_000,
+        |_t: Tier| {
+            (hier::scenario(), prop::option::weighted(0.9, any::<u32>()), any::<bool>()).prop_map(|(sc, fault, cd)| ServerCase { sc, fault, cd })
+        },
+        server_case,
+    );
+
+    Some(Check {
+        id: "C07",
+        level: "fault_enumeration",
+        rule: "scenario = generated hierarchy root/t./l.t.(+s.t.) x query; single_faults enumerates, per scenario, every (upstream response of the fault-free trace, section, record, operator) tampering; double_faults samples pairs (uniform, attacker-constructive, forged chain link, and follow-up faults on queries that only the first fault provokes). Non-trivial = distinct (scenario, fault set) whose fault lands on a record the validator consumed (any record of the top-level response; answer / NSEC / NSEC3 / SOA records of DNSKEY and DS sub-queries; the NS RRset of a zone-cut probe) or is a whole-response operator, plus the fault-free run of each scenario",
+        assumptions: vec![
+            "honest zone data and signatures come from hickory's own InMemoryZoneHandler signer (TBS correctness is C05's subject)",
+            "the upstream DnsHandle either returns every response as Ok(DnsResponse) (DnssecClient style, 70 %) or maps it through DnsError::from_response (name-server-pool style, 30 %)",
+            "the upstream drops the NSEC3 that hickory's authoritative server attaches to positive non-wildcard answers; the root zone uses NSEC (hickory's NSEC3 signer yields no proof under the root); CNAMEs are queried only for types their target has",
+            "universe is small: <= 4 zones, 3 levels, Ed25519 keys only, NSEC3 without opt-out, no wildcards or empty non-terminals (C08/C09)",
+            "a fault tampers with the response to one query every time that query is asked (consistent on-path attacker); each faulted run uses a fresh DnssecDnsHandle; validator clock = signing time + 1 h, signatures valid 30 days",
+            "a partial key set as trust anchor is generated only at the root; DS RRsets are published only in parents that are Secure per the model (hickory fails closed otherwise)",
+            "the header rcode of a positive answer is not judged (no signature covers it; the property speaks of records)",
+        ],
+        subs: vec![single, double, server],
+    })
 }
